@@ -67,16 +67,55 @@ theorem mem_dropRel {rel : List (Ch × Seq)} {k x : Ch × Seq} : x ∈ dropRel r
 theorem not_mem_dropRel (rel : List (Ch × Seq)) (k : Ch × Seq) : k ∉ dropRel rel k := by
   simp [dropRel]
 
+theorem dropRel_of_not_mem (rel : List (Ch × Seq)) (k : Ch × Seq) (h : k ∉ rel) : dropRel rel k = rel := by
+  unfold dropRel
+  rw [List.filter_eq_self]
+  intro a ha
+  simp only [ne_eq, decide_not, Bool.not_eq_eq_eq_not, Bool.not_true, decide_eq_false_iff_not]
+  intro e; subst e; exact h ha
+
+theorem mem_dropRelOpt {rel : List (Ch × Seq)} {o : Option (Ch × Seq)} {x : Ch × Seq} :
+    x ∈ dropRelOpt rel o ↔ x ∈ rel ∧ o ≠ some x := by
+  cases o with
+  | none => simp [dropRelOpt]
+  | some k =>
+    simp only [dropRelOpt, mem_dropRel, ne_eq, Option.some.injEq]
+    constructor
+    · rintro ⟨h1, h2⟩; exact ⟨h1, fun e => h2 e.symm⟩
+    · rintro ⟨h1, h2⟩; exact ⟨h1, fun e => h2 e.symm⟩
+
+theorem lookup_none_not_mem {k : Ch × Seq} : ∀ {cs : List ((Ch × Seq) × Pkt)}, lookup k cs = none → ∀ y ∈ cs, y.1 ≠ k := by
+  intro cs
+  induction cs with
+  | nil => intro _ y hy; cases hy
+  | cons c r ih =>
+    obtain ⟨k', q⟩ := c
+    intro hn y hy
+    simp only [lookup] at hn
+    by_cases hk : k' = k
+    · simp [hk] at hn
+    · simp only [hk, ↓reduceIte] at hn
+      rcases List.mem_cons.1 hy with hy | hy
+      · subst hy; exact hk
+      · exact ih hn y hy
+
+/-! ## the key a callback computes -/
+
+theorem keyOf_src (seqOk : Bool) (src dst : Ch) (seq : Seq) (h : seqOk = true) :
+    keyOf .src seqOk src dst seq = some (src, seq) := by
+  simp [keyOf, h, ChanSel.pick]
+
 /-! ## the invariant -/
 
-/-- inductive invariant of the control part (holds for every configuration that records the relation on send and whose
-`IbcRefund` finds it) -/
+/-- inductive invariant of the control part (holds for every configuration that records the relation of a transfer
+under the transfer's own (local channel, sequence) and whose callbacks compute the key from the source channel) -/
 structure Inv (c : Ctl) : Prop where
   /-- sequence freshness -/
   fC : ∀ x ∈ c.commits, x.1.2 ≤ sget c.next x.1.1
   fR : ∀ r ∈ c.refundLog, r.seq ≤ sget c.next r.ch
   fA : ∀ k ∈ c.ackedOk, k.2 ≤ sget c.next k.1
   fE : ∀ e ∈ c.evmSent, e.seq ≤ sget c.next e.ch
+  fK : ∀ k ∈ c.rel, k.2 ≤ sget c.next k.1
   /-- a refunded transfer is no longer committed -/
   rNC : ∀ r ∈ c.refundLog, ∀ x ∈ c.commits, x.1 ≠ r.key
   /-- a successfully acknowledged transfer is no longer committed -/
@@ -86,12 +125,13 @@ structure Inv (c : Ctl) : Prop where
   /-- never both acknowledged successfully and refunded -/
   rNA : ∀ r ∈ c.refundLog, r.key ∉ c.ackedOk
   /-- the commitment of an EVM-originated transfer carries its sender, token and amount -/
-  eData : ∀ e ∈ c.evmSent, ∀ x ∈ c.commits, x.1 = e.key → x.2 = ⟨e.sender, e.tok, e.amt⟩
-  /-- an EVM-originated transfer of a bridged token that is still in flight has its relation record -/
-  eRel : ∀ e ∈ c.evmSent, e.tok = .B → (∃ x ∈ c.commits, x.1 = e.key) → e.key ∈ c.rel
-  /-- a refund of an EVM-originated transfer went to its sender, with its amount, and in ERC-20 form for bridged tokens -/
+  eData : ∀ e ∈ c.evmSent, ∀ x ∈ c.commits, x.1 = e.key →
+    x.2.sender = e.sender ∧ x.2.tok = e.tok ∧ x.2.amt = e.amt ∧ x.2.evm = true
+  /-- an EVM-originated transfer of the aliased token that is still in flight has its relation record -/
+  eRel : ∀ e ∈ c.evmSent, e.tok = .A → (∃ x ∈ c.commits, x.1 = e.key) → e.key ∈ c.rel
+  /-- a refund of an EVM-originated transfer went to its sender, with its amount, and in ERC-20 form for the aliased token -/
   rE : ∀ r ∈ c.refundLog, ∀ e ∈ c.evmSent, r.key = e.key →
-    r.sender = e.sender ∧ r.tok = e.tok ∧ r.amt = e.amt ∧ (e.tok = .B → r.erc20Form = true)
+    r.sender = e.sender ∧ r.tok = e.tok ∧ r.amt = e.amt ∧ (e.tok = .A → r.erc20Form = true)
 
 theorem inv_init : Inv init.ctl := by
   constructor <;> simp [init]
@@ -99,49 +139,54 @@ theorem inv_init : Inv init.ctl := by
 /-- what the invariant needs from the configuration -/
 structure Sound (cfg : Cfg) : Prop where
   sendSetsRel : cfg.sendSetsRel = true
+  sendKeyOwn : cfg.sendKeyOwn = true
   refundSees : cfg.refundSees = true
   refundConverts : cfg.refundConverts = true
+  ackOkChan : cfg.ackOkChan = .src
+  refundChan : cfg.refundChan = .src
+  refundSeq : cfg.refundSeq = true
+  deleteReports : cfg.deleteReports = true
 
-theorem inv_send (c : Ctl) (ch : Ch) (p : Pkt) (evm setRel : Bool) (h : Inv c)
-    (hrel : evm = true → p.tok = .B → setRel = true) : Inv (sendCtl c ch p evm setRel) := by
-  have hn : ∀ ch', sget c.next ch' ≤ sget (sset c.next ch (nextSeq c ch)) ch' := by
+theorem inv_send (c : Ctl) (l : Ch) (p : Pkt) (key : Option (Ch × Seq)) (h : Inv c)
+    (hkey : key = none ∨ key = some (l, nextSeq c l))
+    (hrel : p.evm = true → p.tok = .A → key = some (l, nextSeq c l)) : Inv (sendCtl c l p key) := by
+  have hn : ∀ ch', sget c.next ch' ≤ sget (sset c.next l (nextSeq c l)) ch' := by
     intro ch'
     rw [get_set]
-    by_cases hc : ch = ch'
+    by_cases hc : l = ch'
     · subst hc; simp [nextSeq]
     · simp [hc]
-  have hself : sget (sset c.next ch (nextSeq c ch)) ch = sget c.next ch + 1 := by simp [get_set, nextSeq]
   -- nothing recorded so far carries the new key
-  have freshC : ∀ x ∈ c.commits, x.1 ≠ (ch, nextSeq c ch) := by
+  have freshC : ∀ x ∈ c.commits, x.1 ≠ (l, nextSeq c l) := by
     intro x hx he
     have := h.fC x hx
     rw [he] at this; exact absurd this (Nat.not_succ_le_self _)
-  have freshR : ∀ r ∈ c.refundLog, r.key ≠ (ch, nextSeq c ch) := by
+  have freshR : ∀ r ∈ c.refundLog, r.key ≠ (l, nextSeq c l) := by
     intro r hr he
     have := h.fR r hr
     simp only [RefundRec.key, Prod.mk.injEq] at he
     rw [he.1, he.2] at this; exact absurd this (Nat.not_succ_le_self _)
-  have freshA : ∀ k ∈ c.ackedOk, k ≠ (ch, nextSeq c ch) := by
+  have freshA : ∀ k ∈ c.ackedOk, k ≠ (l, nextSeq c l) := by
     intro k hk he
     have := h.fA k hk
     rw [he] at this; exact absurd this (Nat.not_succ_le_self _)
-  have freshE : ∀ e ∈ c.evmSent, e.key ≠ (ch, nextSeq c ch) := by
+  have freshE : ∀ e ∈ c.evmSent, e.key ≠ (l, nextSeq c l) := by
     intro e he hk
     have := h.fE e he
     simp only [SentRec.key, Prod.mk.injEq] at hk
     rw [hk.1, hk.2] at this; exact absurd this (Nat.not_succ_le_self _)
-  have memE : ∀ e, e ∈ (if evm then (⟨ch, nextSeq c ch, p.sender, p.tok, p.amt⟩ : SentRec) :: c.evmSent else c.evmSent) →
-      (evm = true ∧ e = ⟨ch, nextSeq c ch, p.sender, p.tok, p.amt⟩) ∨ e ∈ c.evmSent := by
+  have memE : ∀ e, e ∈ (if p.evm then (⟨l, nextSeq c l, p.sender, p.tok, p.amt⟩ : SentRec) :: c.evmSent else c.evmSent) →
+      (p.evm = true ∧ e = ⟨l, nextSeq c l, p.sender, p.tok, p.amt⟩) ∨ e ∈ c.evmSent := by
     intro e he
-    cases evm with
-    | false => right; simpa using he
+    cases hev : p.evm with
+    | false => right; simpa [hev] using he
     | true =>
-      simp only [↓reduceIte, List.mem_cons] at he
+      simp only [hev, ↓reduceIte, List.mem_cons] at he
       rcases he with he | he
       · left; exact ⟨rfl, he⟩
       · right; exact he
-  have relMono : ∀ k, k ∈ c.rel → k ∈ (if setRel then (ch, nextSeq c ch) :: c.rel else c.rel) := by
-    intro k hk; cases setRel <;> simp [hk]
+  have relMono : ∀ k, k ∈ c.rel → k ∈ (match key with | some k => k :: c.rel | none => c.rel) := by
+    intro k hk; cases key <;> simp [hk]
   constructor
   · -- fC
     intro x hx
@@ -157,6 +202,16 @@ theorem inv_send (c : Ctl) (ch : Ch) (p : Pkt) (evm setRel : Bool) (h : Inv c)
     rcases memE e he with ⟨_, he⟩ | he
     · subst he; simp [sendCtl, get_set, nextSeq]
     · exact Nat.le_trans (h.fE e he) (hn _)
+  · -- fK
+    intro k hk
+    simp only [sendCtl] at hk ⊢
+    rcases hkey with hkey | hkey
+    · subst hkey; exact Nat.le_trans (h.fK k hk) (hn _)
+    · subst hkey
+      simp only [List.mem_cons] at hk
+      rcases hk with hk | hk
+      · subst hk; simp [get_set, nextSeq]
+      · exact Nat.le_trans (h.fK k hk) (hn _)
   · -- rNC
     intro r hr x hx
     simp only [sendCtl, List.mem_cons] at hx hr
@@ -173,9 +228,9 @@ theorem inv_send (c : Ctl) (ch : Ch) (p : Pkt) (evm setRel : Bool) (h : Inv c)
   · -- eData
     intro e he x hx hk
     simp only [sendCtl, List.mem_cons] at hx
-    rcases memE e he with ⟨_, he⟩ | he
+    rcases memE e he with ⟨hev, he⟩ | he
     · rcases hx with hx | hx
-      · subst hx; subst he; rfl
+      · subst hx; subst he; exact ⟨rfl, rfl, rfl, hev⟩
       · subst he; exact absurd hk (freshC x hx)
     · rcases hx with hx | hx
       · subst hx; exact absurd hk.symm (freshE e he)
@@ -186,7 +241,7 @@ theorem inv_send (c : Ctl) (ch : Ch) (p : Pkt) (evm setRel : Bool) (h : Inv c)
     simp only [sendCtl, List.mem_cons] at hx ⊢
     rcases memE e he with ⟨hevm, he⟩ | he
     · subst he
-      have : setRel = true := hrel hevm hB
+      have : key = some (l, nextSeq c l) := hrel hevm hB
       simp [this, SentRec.key]
     · rcases hx with hx | hx
       · subst hx; exact absurd hk.symm (freshE e he)
@@ -197,6 +252,23 @@ theorem inv_send (c : Ctl) (ch : Ch) (p : Pkt) (evm setRel : Bool) (h : Inv c)
     · subst he; exact absurd hk (freshR r hr)
     · exact h.rE r hr e he hk
 
+/-- the send sequence of a channel jumps forward -/
+theorem inv_next_mono (c : Ctl) (nx : Store Ch) (h : Inv c) (hm : ∀ ch, sget c.next ch ≤ sget nx ch) :
+    Inv { c with next := nx } := by
+  constructor
+  · intro x hx; exact Nat.le_trans (h.fC x hx) (hm _)
+  · intro r hr; exact Nat.le_trans (h.fR r hr) (hm _)
+  · intro k hk; exact Nat.le_trans (h.fA k hk) (hm _)
+  · intro e he; exact Nat.le_trans (h.fE e he) (hm _)
+  · intro k hk; exact Nat.le_trans (h.fK k hk) (hm _)
+  · exact h.rNC
+  · exact h.aNC
+  · exact h.nodup
+  · exact h.rNA
+  · exact h.eData
+  · exact h.eRel
+  · exact h.rE
+
 /-- only the commitment goes away (error ack / timeout without a refund hook) -/
 theorem inv_drop (c : Ctl) (k : Ch × Seq) (h : Inv c) : Inv { c with commits := dropCommit c.commits k } := by
   constructor
@@ -204,6 +276,7 @@ theorem inv_drop (c : Ctl) (k : Ch × Seq) (h : Inv c) : Inv { c with commits :=
   · exact h.fR
   · exact h.fA
   · exact h.fE
+  · exact h.fK
   · intro r hr x hx; exact h.rNC r hr x (mem_dropCommit.1 hx).1
   · intro a ha x hx; exact h.aNC a ha x (mem_dropCommit.1 hx).1
   · exact h.nodup
@@ -214,8 +287,26 @@ theorem inv_drop (c : Ctl) (k : Ch × Seq) (h : Inv c) : Inv { c with commits :=
     exact h.eRel e he hB ⟨x, (mem_dropCommit.1 hx).1, hk⟩
   · exact h.rE
 
-theorem inv_ackOk (cfg : Cfg) (c : Ctl) (k : Ch × Seq) (p : Pkt) (h : Inv c) (hk : (k, p) ∈ c.commits) :
-    Inv (ackOkCtl cfg c k) := by
+theorem inv_ackOk (cfg : Cfg) (hsel : cfg.ackOkChan = .src) (c : Ctl) (k : Ch × Seq) (p : Pkt) (h : Inv c)
+    (hk : (k, p) ∈ c.commits) : Inv (ackOkCtl cfg c k p) := by
+  -- whatever the success branch deletes, it is at most the record of `k`
+  have hsub : ∀ x, x ∈ c.rel → x ≠ k → x ∈ (ackOkCtl cfg c k p).rel := by
+    intro x hx hne
+    simp only [ackOkCtl]
+    split
+    · rw [mem_dropRelOpt]
+      refine ⟨hx, ?_⟩
+      rw [hsel]
+      cases hs : cfg.ackOkSeq with
+      | false => simp [keyOf]
+      | true => rw [keyOf_src _ _ _ _ rfl]; intro e; exact hne (by cases e; rfl)
+    · exact hx
+  have hsup : ∀ x, x ∈ (ackOkCtl cfg c k p).rel → x ∈ c.rel := by
+    intro x hx
+    simp only [ackOkCtl] at hx
+    split at hx
+    · exact (mem_dropRelOpt.1 hx).1
+    · exact hx
   constructor
   · intro x hx; exact h.fC x (mem_dropCommit.1 hx).1
   · exact h.fR
@@ -225,6 +316,7 @@ theorem inv_ackOk (cfg : Cfg) (c : Ctl) (k : Ch × Seq) (p : Pkt) (h : Inv c) (h
     · subst ha; exact h.fC _ hk
     · exact h.fA a ha
   · exact h.fE
+  · intro x hx; exact h.fK x (hsup x hx)
   · intro r hr x hx; exact h.rNC r hr x (mem_dropCommit.1 hx).1
   · intro a ha x hx
     simp only [ackOkCtl, List.mem_cons] at ha hx
@@ -242,14 +334,30 @@ theorem inv_ackOk (cfg : Cfg) (c : Ctl) (k : Ch × Seq) (p : Pkt) (h : Inv c) (h
     obtain ⟨x, hx, hke⟩ := hx
     have hx' := mem_dropCommit.1 hx
     have hin := h.eRel e he hB ⟨x, hx'.1, hke⟩
-    simp only [ackOkCtl]
-    split
-    · exact mem_dropRel.2 ⟨hin, by rw [← hke]; exact hx'.2⟩
-    · exact hin
+    exact hsub _ hin (by rw [← hke]; exact hx'.2)
   · exact h.rE
 
+theorem refundFound_src (cfg : Cfg) (hsees : cfg.refundSees = true) (hch : cfg.refundChan = .src)
+    (hseq : cfg.refundSeq = true) (hrep : cfg.deleteReports = true) (c : Ctl) (k : Ch × Seq) (p : Pkt) :
+    refundFound cfg c k p = if c.rel.contains k then some k else none := by
+  simp [refundFound, hsees, hch, keyOf_src _ _ _ _ hseq, hrep]
+
 theorem inv_refund (cfg : Cfg) (c : Ctl) (k : Ch × Seq) (p : Pkt) (h : Inv c) (hk : (k, p) ∈ c.commits)
-    (hsees : cfg.refundSees = true) (hconv : cfg.refundConverts = true) : Inv (refundCtl cfg c k p) := by
+    (hsees : cfg.refundSees = true) (hconv : cfg.refundConverts = true) (hch : cfg.refundChan = .src)
+    (hseq : cfg.refundSeq = true) (hrep : cfg.deleteReports = true) : Inv (refundCtl cfg c k p) := by
+  have hf := refundFound_src cfg hsees hch hseq hrep c k p
+  have hsub : ∀ x, x ∈ c.rel → x ≠ k → x ∈ (refundCtl cfg c k p).rel := by
+    intro x hx hne
+    simp only [refundCtl, hf]
+    rw [mem_dropRelOpt]
+    refine ⟨hx, ?_⟩
+    split
+    · intro e; exact hne (by cases e; rfl)
+    · simp
+  have hsup : ∀ x, x ∈ (refundCtl cfg c k p).rel → x ∈ c.rel := by
+    intro x hx
+    simp only [refundCtl] at hx
+    exact (mem_dropRelOpt.1 hx).1
   constructor
   · intro x hx; exact h.fC x (mem_dropCommit.1 hx).1
   · intro r hr
@@ -259,6 +367,7 @@ theorem inv_refund (cfg : Cfg) (c : Ctl) (k : Ch × Seq) (p : Pkt) (h : Inv c) (
     · exact h.fR r hr
   · exact h.fA
   · exact h.fE
+  · intro x hx; exact h.fK x (hsup x hx)
   · intro r hr x hx
     simp only [refundCtl, List.mem_cons] at hr hx
     rcases hr with hr | hr
@@ -281,72 +390,101 @@ theorem inv_refund (cfg : Cfg) (c : Ctl) (k : Ch × Seq) (p : Pkt) (h : Inv c) (
     obtain ⟨x, hx, hke⟩ := hx
     have hx' := mem_dropCommit.1 hx
     have hin := h.eRel e he hB ⟨x, hx'.1, hke⟩
-    simp only [refundCtl]
-    split
-    · exact mem_dropRel.2 ⟨hin, by rw [← hke]; exact hx'.2⟩
-    · exact hin
+    exact hsub _ hin (by rw [← hke]; exact hx'.2)
   · intro r hr e he hke
     simp only [refundCtl, List.mem_cons] at hr he
     rcases hr with hr | hr
     · subst hr
       have hke' : k = e.key := by simpa [RefundRec.key] using hke
-      have hd := h.eData e he _ hk hke'
-      simp only at hd
-      subst hd
-      refine ⟨rfl, rfl, rfl, ?_⟩
+      obtain ⟨h1, h2, h3, _⟩ := h.eData e he _ hk hke'
+      simp only at h1 h2 h3
+      refine ⟨h1, h2, h3, ?_⟩
       intro hB
       have hin := h.eRel e he hB ⟨_, hk, hke'⟩
       have hin' : k ∈ c.rel := by rw [hke']; exact hin
-      simp [refundForm, refundFound, hsees, hconv, hin']
+      simp [refundForm, hf, hconv, hin']
     · exact h.rE r hr e he hke
 
 /-! ## the whole transition preserves the invariant -/
 
-theorem refundOrDrop_inv (cfg : Cfg) (hs : Sound cfg) (s : State) (ch : Ch) (seq : Seq) (p : Pkt) (refunds : Bool)
-    (h : Inv s.ctl) (hk : ((ch, seq), p) ∈ s.ctl.commits) : Inv (refundOrDrop cfg s ch seq p refunds).ctl := by
-  unfold refundOrDrop
-  cases refunds with
-  | true => exact inv_refund cfg s.ctl _ p h hk hs.refundSees hs.refundConverts
-  | false => exact inv_drop s.ctl _ h
+theorem refundState_inv (cfg : Cfg) (hs : Sound cfg) (s s' : State) (l : Ch) (seq : Seq) (p : Pkt) (refunds : Bool)
+    (h : Inv s.ctl) (hk : ((l, seq), p) ∈ s.ctl.commits) (hr : refundState cfg s l seq p refunds = some s') :
+    Inv s'.ctl := by
+  unfold refundState at hr
+  split at hr
+  · cases hr
+  · cases refunds with
+    | true =>
+      simp only [↓reduceIte] at hr
+      split at hr
+      · cases hr
+      · cases hr
+        exact inv_refund cfg s.ctl _ p h hk hs.refundSees hs.refundConverts hs.refundChan hs.refundSeq hs.deleteReports
+    | false =>
+      simp only [Bool.false_eq_true, ↓reduceIte, Option.some.injEq] at hr
+      subst hr
+      exact inv_drop s.ctl _ h
 
-theorem settleState_inv (cfg : Cfg) (hs : Sound cfg) (s : State) (ch : Ch) (seq : Seq) (p : Pkt) (mode : Mode)
-    (h : Inv s.ctl) (hk : ((ch, seq), p) ∈ s.ctl.commits) : Inv (settleState cfg s ch seq p mode).ctl := by
+theorem settleState_inv (cfg : Cfg) (hs : Sound cfg) (s s' : State) (l : Ch) (seq : Seq) (p : Pkt) (mode : Mode)
+    (h : Inv s.ctl) (hk : ((l, seq), p) ∈ s.ctl.commits) (hr : settleState cfg s l seq p mode = some s') :
+    Inv s'.ctl := by
   cases mode with
-  | ackOk => exact inv_ackOk cfg s.ctl _ p h hk
-  | ackErr => exact refundOrDrop_inv cfg hs s ch seq p _ h hk
-  | timeout => exact refundOrDrop_inv cfg hs s ch seq p _ h hk
+  | ackOk =>
+    simp only [settleState, Option.some.injEq] at hr
+    subst hr
+    exact inv_ackOk cfg hs.ackOkChan s.ctl _ p h hk
+  | ackErr => exact refundState_inv cfg hs s s' l seq p _ h hk hr
+  | timeout => exact refundState_inv cfg hs s s' l seq p _ h hk hr
 
-theorem settle_inv (cfg : Cfg) (hs : Sound cfg) (s : State) (ch : Ch) (seq : Seq) (mode : Mode) (h : Inv s.ctl) :
-    Inv (settle cfg s ch seq mode).1.ctl := by
+theorem settle_inv (cfg : Cfg) (hs : Sound cfg) (s : State) (l : Ch) (seq : Seq) (mode : Mode) (h : Inv s.ctl) :
+    Inv (settle cfg s l seq mode).1.ctl := by
   unfold settle
-  cases hl : lookup (ch, seq) s.ctl.commits with
+  cases hl : lookup (l, seq) s.ctl.commits with
   | none => exact h
-  | some p => exact settleState_inv cfg hs s ch seq p mode h (lookup_mem hl)
+  | some p =>
+    simp only
+    cases hst : settleState cfg s l seq p mode with
+    | none => exact h
+    | some s' => exact settleState_inv cfg hs s s' l seq p mode h (lookup_mem hl) hst
+
+theorem doSend_inv (cfg : Cfg) (hs : Sound cfg) (s : State) (l : Ch) (sender : Addr) (t : Tok) (amt : Nat) (evm : Bool)
+    (h : Inv s.ctl) : Inv (doSend cfg s l sender t amt evm).1.ctl := by
+  unfold doSend
+  split
+  · exact h
+  · refine inv_send s.ctl l _ _ h ?_ ?_
+    · unfold sendKey; split <;> simp
+    · intro hev hA
+      simp only at hev hA
+      simp [sendKey, hev, hA, hs.sendSetsRel, hs.sendKeyOwn]
 
 theorem step_inv (cfg : Cfg) (hs : Sound cfg) (s : State) (op : Op) (h : Inv s.ctl) :
     Inv (stepWith cfg s op).1.ctl := by
   cases op with
   | reset => exact inv_init
-  | fund a t ch amt =>
-    simp only [stepWith]
-    split <;> exact h
-  | recv ch t k to amt m =>
-    simp only [stepWith]
-    split <;> exact h
-  | send ch sender t amt =>
+  | chan l r => exact ⟨h.fC, h.fR, h.fA, h.fE, h.fK, h.rNC, h.aNC, h.nodup, h.rNA, h.eData, h.eRel, h.rE⟩
+  | vmeta l => exact ⟨h.fC, h.fR, h.fA, h.fE, h.fK, h.rNC, h.aNC, h.nodup, h.rNA, h.eData, h.eRel, h.rE⟩
+  | migrate => exact ⟨h.fC, h.fR, h.fA, h.fE, h.fK, h.rNC, h.aNC, h.nodup, h.rNA, h.eData, h.eRel, h.rE⟩
+  | seqset l n =>
     simp only [stepWith]
     split
+    · rename_i hlt
+      refine inv_next_mono s.ctl _ h ?_
+      intro ch
+      rw [get_set]
+      split
+      · rename_i hc; subst hc; omega
+      · exact Nat.le_refl _
     · exact h
-    · refine inv_send s.ctl ch _ true _ h ?_
-      intro _ hB
-      simp only at hB
-      simp [hB, hs.sendSetsRel]
-  | csend ch sender amt =>
+  | fund a t l amt =>
     simp only [stepWith]
-    split
-    · exact h
-    · exact inv_send s.ctl ch _ false false h (by simp)
-  | settle ch seq mode => exact settle_inv cfg hs s ch seq mode h
+    split <;> exact h
+  | recv l t k to amt m snd =>
+    simp only [stepWith]
+    split <;> exact h
+  | send l sender t amt => exact doSend_inv cfg hs s l sender t amt true h
+  | csend l sender t amt => exact doSend_inv cfg hs s l sender t amt false h
+  | settle l seq mode => exact settle_inv cfg hs s l seq mode h
   | bad => exact h
 
 theorem run_inv (cfg : Cfg) (hs : Sound cfg) (ops : List Op) (s : State) (h : Inv s.ctl) :
@@ -355,62 +493,111 @@ theorem run_inv (cfg : Cfg) (hs : Sound cfg) (ops : List Op) (s : State) (h : In
   | nil => exact h
   | cons op ops ih => exact ih _ (step_inv cfg hs s op h)
 
-/-! ## relation removal -/
+/-! ## relation removal and frame -/
 
-theorem refund_removes (cfg : Cfg) (c : Ctl) (k : Ch × Seq) (p : Pkt) (hsees : cfg.refundSees = true) :
-    k ∉ (refundCtl cfg c k p).rel := by
-  simp only [refundCtl]
-  split
-  · exact not_mem_dropRel _ _
-  · rename_i hnf
-    intro hin
-    apply hnf
-    simp [refundFound, hsees, hin]
+theorem refund_rel (cfg : Cfg) (hsees : cfg.refundSees = true) (hch : cfg.refundChan = .src) (hseq : cfg.refundSeq = true)
+    (hrep : cfg.deleteReports = true)
+    (c : Ctl) (k : Ch × Seq) (p : Pkt) : (refundCtl cfg c k p).rel = dropRel c.rel k := by
+  simp only [refundCtl, refundFound_src cfg hsees hch hseq hrep]
+  by_cases hin : k ∈ c.rel
+  · simp [hin, dropRelOpt]
+  · simp [hin, dropRelOpt, dropRel_of_not_mem _ _ hin]
 
-theorem ackOk_removes (cfg : Cfg) (c : Ctl) (k : Ch × Seq) (h : cfg.ackOkRemoves = true) :
-    k ∉ (ackOkCtl cfg c k).rel := by
-  simp only [ackOkCtl, h, ↓reduceIte]
+theorem ackOk_rel (cfg : Cfg) (hOk : cfg.ackOkRemoves = true) (hch : cfg.ackOkChan = .src) (hseq : cfg.ackOkSeq = true)
+    (c : Ctl) (k : Ch × Seq) (p : Pkt) : (ackOkCtl cfg c k p).rel = dropRel c.rel k := by
+  simp [ackOkCtl, hOk, hch, keyOf_src _ _ _ _ hseq, dropRelOpt]
+
+/-- configuration facts under which every settlement removes exactly the record of the settled (channel, sequence) -/
+structure Removes (cfg : Cfg) : Prop where
+  ackOkRemoves : cfg.ackOkRemoves = true
+  ackOkChan : cfg.ackOkChan = .src
+  ackOkSeq : cfg.ackOkSeq = true
+  ackErrRefunds : cfg.ackErrRefunds = true
+  timeoutRefunds : cfg.timeoutRefunds = true
+  refundSees : cfg.refundSees = true
+  refundChan : cfg.refundChan = .src
+  refundSeq : cfg.refundSeq = true
+  deleteReports : cfg.deleteReports = true
+
+theorem refundState_rel (cfg : Cfg) (hsees : cfg.refundSees = true) (hch : cfg.refundChan = .src)
+    (hseq : cfg.refundSeq = true) (hrep : cfg.deleteReports = true) (s s' : State) (l : Ch) (seq : Seq) (p : Pkt)
+    (hr : refundState cfg s l seq p true = some s') : s'.ctl.rel = dropRel s.ctl.rel (l, seq) := by
+  unfold refundState at hr
+  split at hr
+  · cases hr
+  · simp only [↓reduceIte] at hr
+    split at hr
+    · cases hr
+    · cases hr
+      exact refund_rel cfg hsees hch hseq hrep s.ctl _ p
+
+/-- a processed settlement leaves the relation store as it was, minus the record of exactly that (channel, sequence) -/
+theorem settleState_rel (cfg : Cfg) (hR : Removes cfg) (s s' : State) (l : Ch) (seq : Seq) (p : Pkt) (mode : Mode)
+    (hr : settleState cfg s l seq p mode = some s') : s'.ctl.rel = dropRel s.ctl.rel (l, seq) := by
+  cases mode with
+  | ackOk =>
+    simp only [settleState, Option.some.injEq] at hr
+    subst hr
+    exact ackOk_rel cfg hR.ackOkRemoves hR.ackOkChan hR.ackOkSeq s.ctl _ p
+  | ackErr =>
+    simp only [settleState, hR.ackErrRefunds] at hr
+    exact refundState_rel cfg hR.refundSees hR.refundChan hR.refundSeq hR.deleteReports s s' l seq p hr
+  | timeout =>
+    simp only [settleState, hR.timeoutRefunds] at hr
+    exact refundState_rel cfg hR.refundSees hR.refundChan hR.refundSeq hR.deleteReports s s' l seq p hr
+
+theorem settle_frame (cfg : Cfg) (hR : Removes cfg) (s : State) (l : Ch) (seq : Seq) (mode : Mode) :
+    (stepWith cfg s (.settle l seq mode)).2.isDone →
+      (stepWith cfg s (.settle l seq mode)).1.ctl.rel = dropRel s.ctl.rel (l, seq) := by
+  simp only [stepWith, settle]
+  cases hl : lookup (l, seq) s.ctl.commits with
+  | none => intro hd; obtain ⟨_, _, _, _, _, _, _, hd⟩ := hd; cases hd
+  | some p =>
+    simp only
+    cases hst : settleState cfg s l seq p mode with
+    | none => intro hd; obtain ⟨_, _, _, _, _, _, _, hd⟩ := hd; cases hd
+    | some s' => intro _; exact settleState_rel cfg hR s s' l seq p mode hst
+
+theorem settle_removes (cfg : Cfg) (hR : Removes cfg) (s : State) (l : Ch) (seq : Seq) (mode : Mode) :
+    (stepWith cfg s (.settle l seq mode)).2.isDone → (l, seq) ∉ (stepWith cfg s (.settle l seq mode)).1.ctl.rel := by
+  intro hd
+  rw [settle_frame cfg hR s l seq mode hd]
   exact not_mem_dropRel _ _
 
-theorem ackOk_keeps (cfg : Cfg) (c : Ctl) (k : Ch × Seq) (h : cfg.ackOkRemoves = false) :
-    (ackOkCtl cfg c k).rel = c.rel := by
-  simp [ackOkCtl, h]
-
-theorem settle_removes (cfg : Cfg) (hOk : cfg.ackOkRemoves = true) (hE : cfg.ackErrRefunds = true)
-    (hT : cfg.timeoutRefunds = true) (hS : cfg.refundSees = true) (s : State) (ch : Ch) (seq : Seq) (mode : Mode) :
-    (stepWith cfg s (.settle ch seq mode)).2.isDone → (ch, seq) ∉ (stepWith cfg s (.settle ch seq mode)).1.ctl.rel := by
-  simp only [stepWith, settle]
-  cases hl : lookup (ch, seq) s.ctl.commits with
-  | none => intro hd; obtain ⟨_, _, _, _, hd⟩ := hd; cases hd
-  | some p =>
-    intro _
-    cases mode with
-    | ackOk => exact ackOk_removes cfg s.ctl _ hOk
-    | ackErr => simp only [settleState, refundOrDrop, hE, ↓reduceIte]; exact refund_removes cfg s.ctl _ p hS
-    | timeout => simp only [settleState, refundOrDrop, hT, ↓reduceIte]; exact refund_removes cfg s.ctl _ p hS
-
 theorem settle_removes_failure (cfg : Cfg) (hE : cfg.ackErrRefunds = true)
-    (hT : cfg.timeoutRefunds = true) (hS : cfg.refundSees = true) (s : State) (ch : Ch) (seq : Seq) (mode : Mode)
+    (hT : cfg.timeoutRefunds = true) (hS : cfg.refundSees = true) (hch : cfg.refundChan = .src)
+    (hseq : cfg.refundSeq = true) (hrep : cfg.deleteReports = true) (s : State) (l : Ch) (seq : Seq) (mode : Mode)
     (hm : mode ≠ .ackOk) :
-    (stepWith cfg s (.settle ch seq mode)).2.isDone → (ch, seq) ∉ (stepWith cfg s (.settle ch seq mode)).1.ctl.rel := by
+    (stepWith cfg s (.settle l seq mode)).2.isDone →
+      (stepWith cfg s (.settle l seq mode)).1.ctl.rel = dropRel s.ctl.rel (l, seq) := by
   simp only [stepWith, settle]
-  cases hl : lookup (ch, seq) s.ctl.commits with
-  | none => intro hd; obtain ⟨_, _, _, _, hd⟩ := hd; cases hd
+  cases hl : lookup (l, seq) s.ctl.commits with
+  | none => intro hd; obtain ⟨_, _, _, _, _, _, _, hd⟩ := hd; cases hd
   | some p =>
-    intro _
-    cases mode with
-    | ackOk => exact absurd rfl hm
-    | ackErr => simp only [settleState, refundOrDrop, hE, ↓reduceIte]; exact refund_removes cfg s.ctl _ p hS
-    | timeout => simp only [settleState, refundOrDrop, hT, ↓reduceIte]; exact refund_removes cfg s.ctl _ p hS
+    simp only
+    cases hst : settleState cfg s l seq p mode with
+    | none => intro hd; obtain ⟨_, _, _, _, _, _, _, hd⟩ := hd; cases hd
+    | some s' =>
+      intro _
+      cases mode with
+      | ackOk => exact absurd rfl hm
+      | ackErr =>
+        simp only [settleState, hE] at hst
+        exact refundState_rel cfg hS hch hseq hrep s s' l seq p hst
+      | timeout =>
+        simp only [settleState, hT] at hst
+        exact refundState_rel cfg hS hch hseq hrep s s' l seq p hst
 
-theorem settle_ackOk_keeps (cfg : Cfg) (hne : cfg.ackDelPrefix ≠ cfg.setPrefix) (s : State) (ch : Ch) (seq : Seq) :
-    (stepWith cfg s (.settle ch seq .ackOk)).1.ctl.rel = s.ctl.rel := by
+/-- whenever the success branch deletes under another prefix than the one the record is written under, a success ack
+leaves the relation store exactly as it was -/
+theorem settle_ackOk_keeps (cfg : Cfg) (hne : cfg.ackDelPrefix ≠ cfg.setPrefix) (s : State) (l : Ch) (seq : Seq) :
+    (stepWith cfg s (.settle l seq .ackOk)).1.ctl.rel = s.ctl.rel := by
   simp only [stepWith, settle]
-  cases hl : lookup (ch, seq) s.ctl.commits with
+  cases hl : lookup (l, seq) s.ctl.commits with
   | none => rfl
   | some p =>
     have : cfg.ackOkRemoves = false := by simp [Cfg.ackOkRemoves, hne]
-    exact ackOk_keeps cfg s.ctl _ this
+    simp [settleState, ackOkCtl, this]
 
 theorem lookup_dropCommit (cs : List ((Ch × Seq) × Pkt)) (k : Ch × Seq) : lookup k (dropCommit cs k) = none := by
   induction cs with
@@ -429,212 +616,753 @@ theorem lookup_dropCommit (cs : List ((Ch × Seq) × Pkt)) (k : Ch × Seq) : loo
       simp only [↓reduceIte, lookup, hk]
       exact ih
 
-theorem refundOrDrop_commits (cfg : Cfg) (s : State) (ch : Ch) (seq : Seq) (p : Pkt) (b : Bool) :
-    (refundOrDrop cfg s ch seq p b).ctl.commits = dropCommit s.ctl.commits (ch, seq) := by
-  cases b <;> rfl
+theorem refundState_commits (cfg : Cfg) (s s' : State) (l : Ch) (seq : Seq) (p : Pkt) (b : Bool)
+    (hr : refundState cfg s l seq p b = some s') : s'.ctl.commits = dropCommit s.ctl.commits (l, seq) := by
+  unfold refundState at hr
+  split at hr
+  · cases hr
+  · cases b with
+    | true =>
+      simp only [↓reduceIte] at hr
+      split at hr
+      · cases hr
+      · cases hr; rfl
+    | false =>
+      simp only [Bool.false_eq_true, ↓reduceIte, Option.some.injEq] at hr
+      subst hr; rfl
 
-theorem settleState_commits (cfg : Cfg) (s : State) (ch : Ch) (seq : Seq) (p : Pkt) (mode : Mode) :
-    (settleState cfg s ch seq p mode).ctl.commits = dropCommit s.ctl.commits (ch, seq) := by
+theorem settleState_commits (cfg : Cfg) (s s' : State) (l : Ch) (seq : Seq) (p : Pkt) (mode : Mode)
+    (hr : settleState cfg s l seq p mode = some s') : s'.ctl.commits = dropCommit s.ctl.commits (l, seq) := by
   cases mode with
-  | ackOk => rfl
-  | ackErr => exact refundOrDrop_commits ..
-  | timeout => exact refundOrDrop_commits ..
+  | ackOk => simp only [settleState, Option.some.injEq] at hr; subst hr; rfl
+  | ackErr => exact refundState_commits cfg s s' l seq p _ hr
+  | timeout => exact refundState_commits cfg s s' l seq p _ hr
 
-theorem settle_twice (cfg : Cfg) (s : State) (ch : Ch) (seq : Seq) (mode mode' : Mode) :
-    stepWith cfg (stepWith cfg s (.settle ch seq mode)).1 (.settle ch seq mode') =
-      ((stepWith cfg s (.settle ch seq mode)).1, .noop (stepWith cfg s (.settle ch seq mode)).1.ctl.rel) := by
-  simp only [stepWith]
-  cases hl : lookup (ch, seq) s.ctl.commits with
+/-- a settlement that was processed (or found nothing to process) is final: every later acknowledgement or timeout of
+the same (channel, sequence) is a no-op.  (A settlement whose callback failed was rolled back and can be retried.) -/
+theorem settle_twice (cfg : Cfg) (s : State) (l : Ch) (seq : Seq) (mode mode' : Mode)
+    (hns : ¬ (stepWith cfg s (.settle l seq mode)).2.isStuck) :
+    stepWith cfg (stepWith cfg s (.settle l seq mode)).1 (.settle l seq mode') =
+      ((stepWith cfg s (.settle l seq mode)).1, .noop (stepWith cfg s (.settle l seq mode)).1.ctl.rel) := by
+  simp only [stepWith] at hns ⊢
+  cases hl : lookup (l, seq) s.ctl.commits with
   | none =>
-    have h1 : settle cfg s ch seq mode = (s, .noop s.ctl.rel) := by simp [settle, hl]
+    have h1 : settle cfg s l seq mode = (s, .noop s.ctl.rel) := by simp [settle, hl]
     rw [h1]
     simp [settle, hl]
   | some p =>
-    have h1 : (settle cfg s ch seq mode).1 = settleState cfg s ch seq p mode := by simp [settle, hl]
-    rw [h1]
-    have h2 : lookup (ch, seq) (settleState cfg s ch seq p mode).ctl.commits = none := by
-      rw [settleState_commits]; exact lookup_dropCommit _ _
-    simp [settle, h2]
+    cases hst : settleState cfg s l seq p mode with
+    | none =>
+      exfalso; apply hns
+      simp only [settle, hl, hst]
+      exact ⟨_, rfl⟩
+    | some s' =>
+      have h1 : (settle cfg s l seq mode).1 = s' := by simp [settle, hl, hst]
+      rw [h1]
+      have h2 : lookup (l, seq) s'.ctl.commits = none := by
+        rw [settleState_commits cfg s s' l seq p mode hst]; exact lookup_dropCommit _ _
+      simp [settle, h2]
 
-/-- an error ack / timeout of an in-flight EVM-originated transfer of a bridged token pays the ERC-20 back -/
+/-! ## the refund of an EVM-originated transfer of the aliased token, at balance level -/
+
+/-- transfer application re-mints the voucher, `IBCCoinToBaseCoin` turns it into the base coin (alias resolved),
+`IbcRefund` converts the base coin to ERC-20 for the sender -/
+theorem refund_A_bal (cfg : Cfg) (vmeta : List Ch) (b : Bal) (l : Ch) (p : Pkt) (hA : p.tok = .A)
+    (hres : resolve cfg vmeta false (.vA l) = .base) (hTo : cfg.refundToSender = true) :
+    ∃ b1 b', refundApp b l p = some b1 ∧ refundHook cfg vmeta b1 l p true = some b' ∧
+      sget b'.erc (p.sender, ETok.base) = sget b.erc (p.sender, ETok.base) + p.amt ∧
+      (∀ k, k ≠ (p.sender, ETok.base) → sget b'.erc k = sget b.erc k) ∧
+      (p.sender ≠ transferMod → p.sender ≠ erc20Mod → ∀ d, sget b'.bank (p.sender, d) = sget b.bank (p.sender, d)) ∧
+      b'.marker = b.marker ∧ b'.caller = b.caller := by
+  refine ⟨b.mint p.sender (.vA l) p.amt, ?_⟩
+  have h1 : refundApp b l p = some (b.mint p.sender (.vA l) p.amt) := by
+    simp [refundApp, hA, returning, bankDenom]
+  have hlt : ¬ sget (b.mint p.sender (.vA l) p.amt).bank (p.sender, Denom.vA l) < p.amt := by
+    simp [Bal.mint, get_add]
+  have h2 : toBaseCoin (b.mint p.sender (.vA l) p.amt) (.vA l) .base p.sender p.amt =
+      some ({ (b.mint p.sender (.vA l) p.amt) with
+                bank := sadd (sadd (ssub (b.mint p.sender (.vA l) p.amt).bank (p.sender, .vA l) p.amt)
+                  (transferMod, .vA l) p.amt) (p.sender, .base) p.amt }, .base) := by
+    simp only [toBaseCoin, Denom.isIbc, Bool.not_true, Bool.false_eq_true, ↓reduceIte, hlt]
+  simp only [refundHook, hA, bankDenom, hres, h2, ↓reduceIte, hTo, convertCoin, pairOf]
+  have hlt2 : ¬ sget (sadd (sadd (ssub (b.mint p.sender (.vA l) p.amt).bank (p.sender, .vA l) p.amt)
+      (transferMod, .vA l) p.amt) (p.sender, .base) p.amt) (p.sender, Denom.base) < p.amt := by
+    simp [get_add]
+  simp only [hlt2, ↓reduceIte]
+  refine ⟨_, h1, rfl, ?_, ?_, ?_, rfl, rfl⟩
+  · simp [Bal.mint, get_add]
+  · intro k hk
+    simp only [Bal.mint, get_add]
+    simp [Ne.symm hk]
+  · intro hn1 hn2 d
+    have e1 : ¬ (transferMod = p.sender) := fun e => hn1 e.symm
+    have e2 : ¬ (erc20Mod = p.sender) := fun e => hn2 e.symm
+    simp only [Bal.mint, get_add, get_sub, Prod.mk.injEq, e1, e2, false_and, true_and, ↓reduceIte]
+    by_cases hd1 : Denom.base = d
+    · subst hd1; simp
+    · by_cases hd2 : Denom.vA l = d
+      · subst hd2; simp
+      · simp [hd1, hd2]
+
+/-- an error ack / timeout of an in-flight EVM-originated transfer of the aliased token pays the ERC-20 back -/
 theorem settle_refund_credits (cfg : Cfg) (hs : Sound cfg) (hE : cfg.ackErrRefunds = true) (hT : cfg.timeoutRefunds = true)
+    (hTo : cfg.refundToSender = true)
     (s : State) (e : SentRec) (mode : Mode) (hm : mode ≠ .ackOk) (h : Inv s.ctl)
-    (he : e ∈ s.ctl.evmSent) (hB : e.tok = .B) (hc : ∃ x ∈ s.ctl.commits, x.1 = e.key) :
+    (he : e ∈ s.ctl.evmSent) (hB : e.tok = .A) (hc : ∃ x ∈ s.ctl.commits, x.1 = e.key)
+    (hmeta : cfg.aliasFirst = true ∨ e.ch ∉ s.ctl.vmeta) :
     (stepWith cfg s (.settle e.ch e.seq mode)).2.isDone ∧
-    sget (stepWith cfg s (.settle e.ch e.seq mode)).1.bal.erc (e.sender, e.ch) = sget s.bal.erc (e.sender, e.ch) + e.amt ∧
-    (e.sender ≠ transferMod →
-      sget (stepWith cfg s (.settle e.ch e.seq mode)).1.bal.vch (e.sender, Tok.B, e.ch) = sget s.bal.vch (e.sender, Tok.B, e.ch)) ∧
-    (e.sender ≠ erc20Mod →
-      sget (stepWith cfg s (.settle e.ch e.seq mode)).1.bal.base (e.sender, e.ch) = sget s.bal.base (e.sender, e.ch)) ∧
-    (stepWith cfg s (.settle e.ch e.seq mode)).1.ctl.refundLog = ⟨e.ch, e.seq, e.sender, .B, e.amt, true⟩ :: s.ctl.refundLog := by
+    sget (stepWith cfg s (.settle e.ch e.seq mode)).1.bal.erc (e.sender, ETok.base) = sget s.bal.erc (e.sender, ETok.base) + e.amt ∧
+    (∀ k, k ≠ (e.sender, ETok.base) → sget (stepWith cfg s (.settle e.ch e.seq mode)).1.bal.erc k = sget s.bal.erc k) ∧
+    (e.sender ≠ transferMod → e.sender ≠ erc20Mod →
+      ∀ d, sget (stepWith cfg s (.settle e.ch e.seq mode)).1.bal.bank (e.sender, d) = sget s.bal.bank (e.sender, d)) ∧
+    (stepWith cfg s (.settle e.ch e.seq mode)).1.ctl.refundLog = ⟨e.ch, e.seq, e.sender, .A, e.amt, true⟩ :: s.ctl.refundLog ∧
+    (stepWith cfg s (.settle e.ch e.seq mode)).1.ctl.rel = dropRel s.ctl.rel (e.ch, e.seq) := by
   obtain ⟨x, hx, hxk⟩ := hc
   -- the lookup finds a commitment, and it carries the transfer's data
-  have hl : lookup (e.ch, e.seq) s.ctl.commits = some ⟨e.sender, .B, e.amt⟩ := by
+  obtain ⟨p, hl⟩ : ∃ p, lookup (e.ch, e.seq) s.ctl.commits = some p := by
     cases hl : lookup (e.ch, e.seq) s.ctl.commits with
-    | none =>
-      exfalso
-      have : ∀ cs : List ((Ch × Seq) × Pkt), lookup (e.ch, e.seq) cs = none → ∀ y ∈ cs, y.1 ≠ (e.ch, e.seq) := by
-        intro cs
-        induction cs with
-        | nil => intro _ y hy; cases hy
-        | cons c r ih =>
-          obtain ⟨k', q⟩ := c
-          intro hn y hy
-          simp only [lookup] at hn
-          by_cases hk : k' = (e.ch, e.seq)
-          · simp [hk] at hn
-          · simp only [hk, ↓reduceIte] at hn
-            rcases List.mem_cons.1 hy with hy | hy
-            · subst hy; exact hk
-            · exact ih hn y hy
-      exact this _ hl x hx hxk
-    | some p =>
-      have hd := h.eData e he _ (lookup_mem hl) rfl
-      simp only at hd
-      rw [hd, hB]
+    | none => exact absurd hxk (lookup_none_not_mem hl x hx)
+    | some p => exact ⟨p, rfl⟩
+  obtain ⟨hp1, hp2, hp3, _⟩ := h.eData e he _ (lookup_mem hl) rfl
+  simp only at hp1 hp2 hp3
+  have hpA : p.tok = .A := by rw [hp2, hB]
   have hin : (e.ch, e.seq) ∈ s.ctl.rel := h.eRel e he hB ⟨x, hx, hxk⟩
-  have hform : refundForm cfg s.ctl (e.ch, e.seq) = true := by
-    simp [refundForm, refundFound, hs.refundSees, hs.refundConverts, hin]
-  have hst : (stepWith cfg s (.settle e.ch e.seq mode)).1 =
-      { bal := refundBal s.bal e.ch ⟨e.sender, .B, e.amt⟩ true, ctl := refundCtl cfg s.ctl (e.ch, e.seq) ⟨e.sender, .B, e.amt⟩ } := by
+  have hfound := refundFound_src cfg hs.refundSees hs.refundChan hs.refundSeq hs.deleteReports s.ctl (e.ch, e.seq) p
+  have hform : refundForm cfg s.ctl (e.ch, e.seq) p = true := by
+    simp [refundForm, hfound, hin, hs.refundConverts]
+  have hres : resolve cfg s.ctl.vmeta false (.vA e.ch) = .base := by
+    rcases hmeta with hmeta | hmeta
+    · simp [resolve, hmeta]
+    · simp [resolve, hmeta]
+  obtain ⟨b1, b', hb1, hb', hc1, hc2, hc3, _, _⟩ := refund_A_bal cfg s.ctl.vmeta s.bal e.ch p hpA hres hTo
+  have hst : settleState cfg s e.ch e.seq p mode = some { bal := b', ctl := refundCtl cfg s.ctl (e.ch, e.seq) p } := by
     cases mode with
     | ackOk => exact absurd rfl hm
-    | ackErr => simp [stepWith, settle, hl, settleState, refundOrDrop, hE, hform]
-    | timeout => simp [stepWith, settle, hl, settleState, refundOrDrop, hT, hform]
-  refine ⟨?_, ?_⟩
-  · simp only [stepWith, settle, hl]
-    exact ⟨_, _, _, _, rfl⟩
-  · rw [hst]
-    refine ⟨?_, ?_, ?_, ?_⟩
-    · simp [refundBal, get_add]
-    · intro hne
-      have : ¬ ((e.sender, Tok.B, e.ch) = (transferMod, Tok.B, e.ch)) := by
-        intro h'; exact hne (by simpa using h')
-      simp [refundBal, get_add, get_sub, Ne.symm hne]
-    · intro hne
-      simp [refundBal, get_add, get_sub, Ne.symm hne]
-    · simp [refundCtl, hform]
+    | ackErr => simp [settleState, hE, refundState, hb1, hform, hb']
+    | timeout => simp [settleState, hT, refundState, hb1, hform, hb']
+  have hstep : stepWith cfg s (.settle e.ch e.seq mode) =
+      ({ bal := b', ctl := refundCtl cfg s.ctl (e.ch, e.seq) p },
+        doneOut { bal := b', ctl := refundCtl cfg s.ctl (e.ch, e.seq) p } e.ch p) := by
+    simp [stepWith, settle, hl, hst]
+  rw [hstep]
+  refine ⟨⟨_, _, _, _, _, _, _, rfl⟩, ?_, ?_, ?_, ?_, ?_⟩
+  · rw [← hp1, ← hp3]; exact hc1
+  · intro k hk; rw [← hp1] at hk; exact hc2 k hk
+  · intro hn1 hn2 d; rw [← hp1] at hn1 hn2 ⊢; exact hc3 hn1 hn2 d
+  · simp [refundCtl, hform, hp1, hpA, hp3]
+  · exact refund_rel cfg hs.refundSees hs.refundChan hs.refundSeq hs.deleteReports s.ctl _ p
+
+/-- with bank metadata on the aliased voucher (and no alias-first resolution) the refund callback of an in-flight
+EVM-originated transfer of the aliased token FAILS: the relayer's transaction is rolled back, nothing is refunded -/
+theorem settle_refund_stuck (cfg : Cfg) (hs : Sound cfg) (hE : cfg.ackErrRefunds = true) (hT : cfg.timeoutRefunds = true)
+    (s : State) (e : SentRec) (mode : Mode) (hm : mode ≠ .ackOk) (h : Inv s.ctl)
+    (he : e ∈ s.ctl.evmSent) (hB : e.tok = .A) (hc : ∃ x ∈ s.ctl.commits, x.1 = e.key)
+    (hmeta : cfg.aliasFirst = false ∧ e.ch ∈ s.ctl.vmeta) :
+    stepWith cfg s (.settle e.ch e.seq mode) = (s, .stuck s.ctl.rel) := by
+  obtain ⟨x, hx, hxk⟩ := hc
+  obtain ⟨p, hl⟩ : ∃ p, lookup (e.ch, e.seq) s.ctl.commits = some p := by
+    cases hl : lookup (e.ch, e.seq) s.ctl.commits with
+    | none => exact absurd hxk (lookup_none_not_mem hl x hx)
+    | some p => exact ⟨p, rfl⟩
+  obtain ⟨hp1, hp2, hp3, _⟩ := h.eData e he _ (lookup_mem hl) rfl
+  simp only at hp2
+  have hpA : p.tok = .A := by rw [hp2, hB]
+  have hin : (e.ch, e.seq) ∈ s.ctl.rel := h.eRel e he hB ⟨x, hx, hxk⟩
+  have hfound := refundFound_src cfg hs.refundSees hs.refundChan hs.refundSeq hs.deleteReports s.ctl (e.ch, e.seq) p
+  have hform : refundForm cfg s.ctl (e.ch, e.seq) p = true := by
+    simp [refundForm, hfound, hin, hs.refundConverts]
+  have hres : resolve cfg s.ctl.vmeta false (.vA e.ch) = .vA e.ch := by
+    simp [resolve, hmeta.1, hmeta.2]
+  have hlt : ¬ sget (s.bal.mint p.sender (.vA e.ch) p.amt).bank (p.sender, Denom.vA e.ch) < p.amt := by
+    simp [Bal.mint, get_add]
+  have hrs : refundState cfg s e.ch e.seq p true = none := by
+    simp [refundState, refundApp, hpA, returning, bankDenom, refundHook, hres, toBaseCoin, Denom.isIbc, hlt, hform,
+      convertCoin, pairOf]
+  have hst : settleState cfg s e.ch e.seq p mode = none := by
+    cases mode with
+    | ackOk => exact absurd rfl hm
+    | ackErr => simp [settleState, hE, hrs]
+    | timeout => simp [settleState, hT, hrs]
+  simp [stepWith, settle, hl, hst]
 
 /-! ## receive -/
 
-theorem recvWith_credit_or_error (cfg : Cfg) (hD : cfg.recvDiscards = true) (hO : cfg.recvOrder = true)
-    (s : State) (ch : Ch) (t : Tok) (to : Addr) (amt : Nat) (m : Memo) :
-    ((stepWith cfg s (.recv ch t .hex to amt m)).2.isRecv true ∧ t ≠ .X ∧ 0 < amt ∧
-      (stepWith cfg s (.recv ch t .hex to amt m)).1.ctl = s.ctl ∧
-      (t = .B →
-        sget (stepWith cfg s (.recv ch t .hex to amt m)).1.bal.erc (to, ch) = sget s.bal.erc (to, ch) + amt ∧
-        (∀ k, k ≠ (to, ch) → sget (stepWith cfg s (.recv ch t .hex to amt m)).1.bal.erc k = sget s.bal.erc k) ∧
-        (stepWith cfg s (.recv ch t .hex to amt m)).1.bal.fx = s.bal.fx ∧
-        (to ≠ transferMod →
-          sget (stepWith cfg s (.recv ch t .hex to amt m)).1.bal.vch (to, Tok.B, ch) = sget s.bal.vch (to, Tok.B, ch)) ∧
-        (to ≠ erc20Mod →
-          sget (stepWith cfg s (.recv ch t .hex to amt m)).1.bal.base (to, ch) = sget s.bal.base (to, ch))) ∧
-      (t = .F →
-        (to ≠ escrow ch → sget (stepWith cfg s (.recv ch t .hex to amt m)).1.bal.fx to = sget s.bal.fx to + amt) ∧
-        (stepWith cfg s (.recv ch t .hex to amt m)).1.bal.erc = s.bal.erc ∧
-        (stepWith cfg s (.recv ch t .hex to amt m)).1.bal.vch = s.bal.vch ∧
-        (stepWith cfg s (.recv ch t .hex to amt m)).1.bal.base = s.bal.base))
-    ∨ ((stepWith cfg s (.recv ch t .hex to amt m)).2.isRecv false ∧ (stepWith cfg s (.recv ch t .hex to amt m)).1 = s) := by
-  by_cases h0 : amt = 0
-  · right
-    simp [stepWith, recvBal, recvApp, h0, Out.isRecv]
-  have hpos : 0 < amt := Nat.pos_of_ne_zero h0
-  cases t with
-  | X =>
-    right
-    cases m <;> simp [stepWith, recvBal, recvApp, recvHook, h0, hD, hO, Out.isRecv]
-  | F =>
-    by_cases hesc : sget s.bal.fx (escrow ch) < amt
-    · right
-      simp [stepWith, recvBal, recvApp, h0, hesc, Out.isRecv]
-    · cases m with
-      | callrev =>
-        right
-        simp [stepWith, recvBal, recvApp, recvHook, h0, hesc, hD, hO, Out.isRecv]
-      | none =>
-        left
-        refine ⟨by simp [stepWith, recvBal, recvApp, recvHook, h0, hesc, hO, Out.isRecv], by simp, hpos, ?_, by simp, ?_⟩
-        · simp [stepWith, recvBal, recvApp, recvHook, h0, hesc, hO]
-        · intro _
-          refine ⟨?_, ?_, ?_, ?_⟩ <;> simp [stepWith, recvBal, recvApp, recvHook, h0, hesc, hO, get_add, get_sub]
-          intro hne; simp [Ne.symm hne]
-      | junk =>
-        left
-        refine ⟨by simp [stepWith, recvBal, recvApp, recvHook, h0, hesc, hO, Out.isRecv], by simp, hpos, ?_, by simp, ?_⟩
-        · simp [stepWith, recvBal, recvApp, recvHook, h0, hesc, hO]
-        · intro _
-          refine ⟨?_, ?_, ?_, ?_⟩ <;> simp [stepWith, recvBal, recvApp, recvHook, h0, hesc, hO, get_add, get_sub]
-          intro hne; simp [Ne.symm hne]
-      | callok =>
-        left
-        refine ⟨by simp [stepWith, recvBal, recvApp, recvHook, h0, hesc, hO, Out.isRecv], by simp, hpos, ?_, by simp, ?_⟩
-        · simp [stepWith, recvBal, recvApp, recvHook, h0, hesc, hO]
-        · intro _
-          refine ⟨?_, ?_, ?_, ?_⟩ <;> simp [stepWith, recvBal, recvApp, recvHook, h0, hesc, hO, get_add, get_sub]
-          intro hne; simp [Ne.symm hne]
-  | B =>
-    cases m with
-    | callrev =>
-      right
-      simp [stepWith, recvBal, recvApp, recvHook, h0, hD, hO, Out.isRecv]
-    | none =>
-      left
-      refine ⟨by simp [stepWith, recvBal, recvApp, recvHook, h0, hO, Out.isRecv], by simp, hpos, ?_, ?_, by simp⟩
-      · simp [stepWith, recvBal, recvApp, recvHook, h0, hO]
-      · intro _
-        refine ⟨?_, ?_, ?_, ?_, ?_⟩ <;>
-          simp [stepWith, recvBal, recvApp, recvHook, coinToEvm, h0, hO, get_add, get_sub]
-        · intro a b hne h1 h2; exact absurd h2.symm (hne h1.symm)
-        · intro hne; simp [Ne.symm hne]
-        · intro hne; simp [Ne.symm hne]
-    | junk =>
-      left
-      refine ⟨by simp [stepWith, recvBal, recvApp, recvHook, h0, hO, Out.isRecv], by simp, hpos, ?_, ?_, by simp⟩
-      · simp [stepWith, recvBal, recvApp, recvHook, h0, hO]
-      · intro _
-        refine ⟨?_, ?_, ?_, ?_, ?_⟩ <;>
-          simp [stepWith, recvBal, recvApp, recvHook, coinToEvm, h0, hO, get_add, get_sub]
-        · intro a b hne h1 h2; exact absurd h2.symm (hne h1.symm)
-        · intro hne; simp [Ne.symm hne]
-        · intro hne; simp [Ne.symm hne]
-    | callok =>
-      left
-      refine ⟨by simp [stepWith, recvBal, recvApp, recvHook, h0, hO, Out.isRecv], by simp, hpos, ?_, ?_, by simp⟩
-      · simp [stepWith, recvBal, recvApp, recvHook, h0, hO]
-      · intro _
-        refine ⟨?_, ?_, ?_, ?_, ?_⟩ <;>
-          simp [stepWith, recvBal, recvApp, recvHook, coinToEvm, h0, hO, get_add, get_sub]
-        · intro a b hne h1 h2; exact absurd h2.symm (hne h1.symm)
-        · intro hne; simp [Ne.symm hne]
-        · intro hne; simp [Ne.symm hne]
+theorem memoStep_bal (cfg : Cfg) (b : Bal) (src dst : Ch) (m : Memo) (snd : Nat) :
+    (memoStep cfg b src dst m snd).1.bank = b.bank ∧ (memoStep cfg b src dst m snd).1.erc = b.erc := by
+  cases m <;> simp [memoStep]
 
-theorem recvWith_bech_error (cfg : Cfg) (hD : cfg.recvDiscards = true) (hO : cfg.recvOrder = true)
-    (s : State) (ch : Ch) (t : Tok) (to : Addr) (amt : Nat) (m : Memo) (ht : t ≠ .F) :
-    (stepWith cfg s (.recv ch t .bech to amt m)).2.isRecv false ∧ (stepWith cfg s (.recv ch t .bech to amt m)).1 = s := by
+theorem memoStep_ok (cfg : Cfg) (b : Bal) (src dst : Ch) (m : Memo) (snd : Nat) :
+    (memoStep cfg b src dst m snd).2 = true ↔ m ≠ .callrev := by
+  cases m <;> simp [memoStep]
+
+/-- what the receive needs from the configuration -/
+structure RecvOk (cfg : Cfg) : Prop where
+  discards : cfg.recvDiscards = true
+  order : cfg.recvOrder = true
+  guard : ∀ d, evalGuard cfg.recvGuard d = (d != Denom.fx)
+  requiresHex : cfg.recvRequiresHex = true
+  converts : cfg.recvConverts = true
+  memoAfter : cfg.recvMemoAfter = true
+  retChan : cfg.recvRetChan = .src
+
+/-- a successful receive went through the transfer application, a successful conversion block and a non-reverting memo
+block, in this order -/
+theorem recvBal_ok (cfg : Cfg) (hc : RecvOk cfg) (vmeta : List Ch) (b : Bal) (src l : Ch) (t : Tok) (k : RKind) (to : Addr)
+    (amt : Nat) (m : Memo) (snd : Nat) (h : (recvBal cfg vmeta b src l t k to amt m snd).2 = true) :
+    k ≠ .bad ∧ ∃ b1 b2, recvApp b l t to amt = some b1 ∧ convStep cfg vmeta b1 l t k to amt = (b2, true) ∧ m ≠ .callrev ∧
+      (recvBal cfg vmeta b src l t k to amt m snd).1 = (memoStep cfg b2 src l m snd).1 := by
+  unfold recvBal at h ⊢
+  by_cases hk : k = .bad
+  · simp [hk] at h
+  refine ⟨hk, ?_⟩
+  simp only [hk, ↓reduceIte] at h ⊢
+  cases ha : recvApp b l t to amt with
+  | none => simp [ha] at h
+  | some b1 =>
+    simp only [ha, hc.order, Bool.not_true, Bool.false_eq_true, ↓reduceIte] at h ⊢
+    have hret : (returning t && !(cfg.recvRetChan.pick src l == some src)) = false := by
+      simp [hc.retChan, ChanSel.pick]
+    simp only [recvHook, hret, Bool.false_eq_true, ↓reduceIte, hc.memoAfter] at h ⊢
+    cases hcv : convStep cfg vmeta b1 l t k to amt with
+    | mk b2 ok =>
+      cases ok with
+      | false => simp [hcv, hc.discards] at h
+      | true =>
+        simp only [hcv, Bool.not_true, Bool.false_eq_true, ↓reduceIte] at h ⊢
+        cases hm : memoStep cfg b2 src l m snd with
+        | mk b3 ok3 =>
+          cases ok3 with
+          | false => simp [hm, hc.discards] at h
+          | true =>
+            refine ⟨b1, b2, rfl, hcv, ?_, ?_⟩
+            · exact (memoStep_ok cfg b2 src l m snd).1 (by rw [hm])
+            · simp [hm]
+
+theorem recvApp_pos {b b1 : Bal} {l : Ch} {t : Tok} {to : Addr} {amt : Nat} (h : recvApp b l t to amt = some b1) : 0 < amt := by
+  unfold recvApp at h
   by_cases h0 : amt = 0
-  · simp [stepWith, recvBal, recvApp, h0, Out.isRecv]
+  · simp [h0] at h
+  · exact Nat.pos_of_ne_zero h0
+
+/-- conversion block for a hex receiver under the guard `denom != FX` -/
+theorem convStep_F (cfg : Cfg) (hc : RecvOk cfg) (vmeta : List Ch) (b : Bal) (l : Ch) (k : RKind) (to : Addr) (amt : Nat) :
+    convStep cfg vmeta b l .F k to amt = (b, true) := by
+  simp [convStep, bankDenom, hc.guard]
+
+theorem convStep_nonhex (cfg : Cfg) (hc : RecvOk cfg) (vmeta : List Ch) (b : Bal) (l : Ch) (t : Tok) (k : RKind) (to : Addr)
+    (amt : Nat) (ht : t ≠ .F) (hk : k ≠ .hex) : (convStep cfg vmeta b l t k to amt).2 = false := by
+  have hd : (bankDenom t l != Denom.fx) = true := by cases t <;> simp_all [bankDenom]
+  simp [convStep, hc.guard, hd, hc.requiresHex, hk]
+
+/-- a successful conversion of a non-FX coin for a hex receiver: the token has an ERC-20 contract, exactly `amt` is
+minted there, and the bank side is: coin moved from the receiver to the module accounts -/
+theorem convStep_hex_ok (cfg : Cfg) (hc : RecvOk cfg) (vmeta : List Ch) (b b2 : Bal) (l : Ch) (t : Tok) (to : Addr) (amt : Nat)
+    (ht : t ≠ .F) (h : convStep cfg vmeta b l t .hex to amt = (b2, true)) :
+    ∃ et, ercTokOf t l = some et ∧ t ≠ .U ∧ t ≠ .X ∧ (t = .A → cfg.aliasFirst = true) ∧
+      b2.erc = sadd b.erc (to, et) amt ∧ b2.marker = b.marker ∧ b2.caller = b.caller ∧
+      amt ≤ sget b.bank (to, bankDenom t l) ∧
+      (∀ a d, d ≠ bankDenom t l → (t = .A → d ≠ .base) → sget b2.bank (a, d) = sget b.bank (a, d)) ∧
+      (to ≠ transferMod → to ≠ erc20Mod → ∀ d, d ≠ bankDenom t l → sget b2.bank (to, d) = sget b.bank (to, d)) ∧
+      (to ≠ transferMod → to ≠ erc20Mod → sget b2.bank (to, bankDenom t l) = sget b.bank (to, bankDenom t l) - amt) := by
+  have hd : (bankDenom t l != Denom.fx) = true := by cases t <;> simp_all [bankDenom]
+  simp only [convStep, hc.guard, hd, ↓reduceIte, hc.requiresHex, bne_self_eq_false, Bool.and_false, Bool.false_eq_true,
+    hc.converts, Bool.not_true] at h
   cases t with
   | F => exact absurd rfl ht
-  | B => cases m <;> simp [stepWith, recvBal, recvApp, recvHook, h0, hD, hO, Out.isRecv]
-  | X => cases m <;> simp [stepWith, recvBal, recvApp, recvHook, h0, hD, hO, Out.isRecv]
+  | N =>
+    simp only [bankDenom, toBaseCoin, Denom.isIbc, Bool.not_false, ↓reduceIte, convertCoin, pairOf] at h
+    by_cases hlt : sget b.bank (to, Denom.nat) < amt
+    · simp [hlt] at h
+    · simp only [hlt, ↓reduceIte, Prod.mk.injEq] at h
+      obtain ⟨h, _⟩ := h
+      subst h
+      refine ⟨.nat, rfl, by simp, by simp, by simp, rfl, rfl, rfl, Nat.le_of_not_lt hlt, ?_, ?_, ?_⟩
+      · intro a d hd1 _
+        simp only [bankDenom] at hd1
+        simp [get_add, get_sub, Ne.symm hd1]
+      · intro _ _ d hd1
+        simp only [bankDenom] at hd1
+        simp [get_add, get_sub, Ne.symm hd1]
+      · intro _ hn2
+        have e2 : ¬ (erc20Mod = to) := fun e => hn2 e.symm
+        simp [bankDenom, get_add, get_sub, e2]
+  | U =>
+    simp [bankDenom, toBaseCoin, Denom.isIbc, convertCoin, pairOf] at h
+  | X =>
+    simp only [bankDenom, toBaseCoin, Denom.isIbc, Bool.not_true, Bool.false_eq_true, ↓reduceIte, resolve] at h
+    by_cases hlt : sget b.bank (to, Denom.vX l) < amt
+    · simp [hlt] at h
+    · simp [hlt, convertCoin, pairOf] at h
+  | V =>
+    simp only [bankDenom, toBaseCoin, Denom.isIbc, Bool.not_true, Bool.false_eq_true, ↓reduceIte, resolve] at h
+    by_cases hlt : sget b.bank (to, Denom.vV l) < amt
+    · simp [hlt] at h
+    · simp only [hlt, ↓reduceIte, convertCoin, pairOf] at h
+      have hlt2 : ¬ sget (sadd (sadd (ssub b.bank (to, Denom.vV l) amt) (transferMod, Denom.vV l) amt) (to, Denom.vV l) amt)
+          (to, Denom.vV l) < amt := by simp [get_add]
+      simp only [hlt2, ↓reduceIte, Prod.mk.injEq] at h
+      obtain ⟨h, _⟩ := h
+      subst h
+      refine ⟨.v l, rfl, by simp, by simp, by simp, rfl, rfl, rfl, Nat.le_of_not_lt hlt, ?_, ?_, ?_⟩
+      · intro a d hd1 _
+        simp only [bankDenom] at hd1
+        simp [get_add, get_sub, Ne.symm hd1]
+      · intro _ _ d hd1
+        simp only [bankDenom] at hd1
+        simp [get_add, get_sub, Ne.symm hd1]
+      · intro hn1 hn2
+        have e1 : ¬ (transferMod = to) := fun e => hn1 e.symm
+        have e2 : ¬ (erc20Mod = to) := fun e => hn2 e.symm
+        have hle := Nat.le_of_not_lt hlt
+        simp only [bankDenom, get_add, get_sub, Prod.mk.injEq, e1, e2, and_true, ↓reduceIte]
+        omega
+  | A =>
+    simp only [bankDenom, toBaseCoin, Denom.isIbc, Bool.not_true, Bool.false_eq_true, ↓reduceIte, resolve,
+      Bool.true_or] at h
+    by_cases hlt : sget b.bank (to, Denom.vA l) < amt
+    · simp [hlt] at h
+    · cases haf : cfg.aliasFirst with
+      | false => simp [hlt, haf, convertCoin, pairOf] at h
+      | true =>
+        simp only [hlt, ↓reduceIte, haf, convertCoin, pairOf] at h
+        have hlt2 : ¬ sget (sadd (sadd (ssub b.bank (to, Denom.vA l) amt) (transferMod, Denom.vA l) amt) (to, Denom.base) amt)
+            (to, Denom.base) < amt := by simp [get_add]
+        simp only [hlt2, ↓reduceIte, Prod.mk.injEq] at h
+        obtain ⟨h, _⟩ := h
+        subst h
+        refine ⟨.base, rfl, by simp, by simp, by simp, rfl, rfl, rfl, Nat.le_of_not_lt hlt, ?_, ?_, ?_⟩
+        · intro a d hd1 hd2
+          simp only [bankDenom] at hd1
+          have hd2' := hd2 rfl
+          simp [get_add, get_sub, Ne.symm hd1, Ne.symm hd2']
+        · intro hn1 hn2 d hd1
+          have e1 : ¬ (transferMod = to) := fun e => hn1 e.symm
+          have e2 : ¬ (erc20Mod = to) := fun e => hn2 e.symm
+          simp only [bankDenom] at hd1
+          simp only [get_add, get_sub, Prod.mk.injEq, e1, e2, false_and, true_and, ↓reduceIte, Ne.symm hd1, and_false]
+          by_cases hb : Denom.base = d
+          · subst hb; simp
+          · simp [hb]
+        · intro hn1 hn2
+          have e1 : ¬ (transferMod = to) := fun e => hn1 e.symm
+          have e2 : ¬ (erc20Mod = to) := fun e => hn2 e.symm
+          simp [bankDenom, get_add, get_sub, e1, e2]
 
-theorem recvWith_memo (cfg : Cfg) (hD : cfg.recvDiscards = true) (hO : cfg.recvOrder = true)
-    (s : State) (ch : Ch) (t : Tok) (k : RKind) (to : Addr) (amt : Nat) :
-    ((stepWith cfg s (.recv ch t k to amt .callrev)).2.isRecv false ∧ (stepWith cfg s (.recv ch t k to amt .callrev)).1 = s) ∧
-    (((stepWith cfg s (.recv ch t k to amt .callok)).2.isRecv true ∧
-        (stepWith cfg s (.recv ch t k to amt .callok)).1.bal.marker = s.bal.marker + 1) ∨
-      ((stepWith cfg s (.recv ch t k to amt .callok)).2.isRecv false ∧ (stepWith cfg s (.recv ch t k to amt .callok)).1 = s)) := by
+theorem recvApp_eff {b b1 : Bal} {l : Ch} {t : Tok} {to : Addr} {amt : Nat} (h : recvApp b l t to amt = some b1) :
+    b1.erc = b.erc ∧ b1.marker = b.marker ∧ b1.caller = b.caller ∧
+    (∀ a d, d ≠ bankDenom t l → sget b1.bank (a, d) = sget b.bank (a, d)) ∧
+    (to ≠ escrow l → sget b1.bank (to, bankDenom t l) = sget b.bank (to, bankDenom t l) + amt) := by
+  unfold recvApp at h
   by_cases h0 : amt = 0
-  · simp [stepWith, recvBal, recvApp, h0, Out.isRecv]
-  cases t with
-  | F =>
-    by_cases hesc : sget s.bal.fx (escrow ch) < amt
-    · simp [stepWith, recvBal, recvApp, h0, hesc, Out.isRecv]
-    · simp [stepWith, recvBal, recvApp, recvHook, h0, hesc, hD, hO, Out.isRecv]
-  | B => cases k <;> simp [stepWith, recvBal, recvApp, recvHook, coinToEvm, h0, hD, hO, Out.isRecv]
-  | X => cases k <;> simp [stepWith, recvBal, recvApp, recvHook, h0, hD, hO, Out.isRecv]
+  · simp [h0] at h
+  simp only [h0, ↓reduceIte] at h
+  by_cases hr : returning t = true
+  · simp only [hr, ↓reduceIte] at h
+    by_cases hlt : sget b.bank (escrow l, bankDenom t l) < amt
+    · simp [hlt] at h
+    · simp only [hlt, ↓reduceIte, Option.some.injEq] at h
+      subst h
+      refine ⟨rfl, rfl, rfl, ?_, ?_⟩
+      · intro a d hd; simp [Bal.move, get_add, get_sub, Ne.symm hd]
+      · intro hne
+        have e1 : ¬ (escrow l = to) := fun e => hne e.symm
+        simp [Bal.move, get_add, get_sub, e1]
+  · simp only [hr, Bool.false_eq_true, ↓reduceIte, Option.some.injEq] at h
+    subst h
+    refine ⟨rfl, rfl, rfl, ?_, ?_⟩
+    · intro a d hd; simp [Bal.mint, get_add, Ne.symm hd]
+    · intro _; simp [Bal.mint, get_add]
 
-/-! ## the memo-call sender -/
+/-- C19, first clause, for every configuration with the receive wired as `RecvOk` says -/
+theorem recvWith_credit_or_error (cfg : Cfg) (hc : RecvOk cfg) (s : State) (l : Ch) (t : Tok) (to : Addr) (amt : Nat)
+    (m : Memo) (snd : Nat) :
+    ((stepWith cfg s (.recv l t .hex to amt m snd)).2.isRecv true ∧ 0 < amt ∧
+      (stepWith cfg s (.recv l t .hex to amt m snd)).1.ctl = s.ctl ∧ t ≠ .U ∧ t ≠ .X ∧ (t = .A → cfg.aliasFirst = true) ∧
+      (t = .F →
+        (to ≠ escrow l → sget (stepWith cfg s (.recv l t .hex to amt m snd)).1.bal.bank (to, Denom.fx) =
+          sget s.bal.bank (to, Denom.fx) + amt) ∧
+        (∀ a d, d ≠ Denom.fx → sget (stepWith cfg s (.recv l t .hex to amt m snd)).1.bal.bank (a, d) = sget s.bal.bank (a, d)) ∧
+        (stepWith cfg s (.recv l t .hex to amt m snd)).1.bal.erc = s.bal.erc) ∧
+      (t ≠ .F → ∃ et, ercTokOf t l = some et ∧
+        sget (stepWith cfg s (.recv l t .hex to amt m snd)).1.bal.erc (to, et) = sget s.bal.erc (to, et) + amt ∧
+        (∀ k, k ≠ (to, et) → sget (stepWith cfg s (.recv l t .hex to amt m snd)).1.bal.erc k = sget s.bal.erc k) ∧
+        (∀ a d, d ≠ bankDenom t l → (t = .A → d ≠ Denom.base) →
+          sget (stepWith cfg s (.recv l t .hex to amt m snd)).1.bal.bank (a, d) = sget s.bal.bank (a, d)) ∧
+        (to ≠ transferMod → to ≠ erc20Mod → to ≠ escrow l →
+          ∀ d, sget (stepWith cfg s (.recv l t .hex to amt m snd)).1.bal.bank (to, d) = sget s.bal.bank (to, d))))
+    ∨ ((stepWith cfg s (.recv l t .hex to amt m snd)).2.isRecv false ∧ (stepWith cfg s (.recv l t .hex to amt m snd)).1 = s) := by
+  simp only [stepWith]
+  cases hr : (recvBal cfg s.ctl.vmeta s.bal (cpOf s.ctl l) l t .hex to amt m snd).2 with
+  | false =>
+    right
+    simp only [Bool.false_eq_true, ↓reduceIte, and_true]
+    exact ⟨_, _, _, _, _, _, _, rfl⟩
+  | true =>
+    left
+    obtain ⟨_, b1, b2, ha, hcv, _, hfin⟩ := recvBal_ok cfg hc _ _ _ _ _ _ _ _ _ _ hr
+    obtain ⟨ae, _, _, aother, ato⟩ := recvApp_eff ha
+    obtain ⟨mb, me⟩ := memoStep_bal cfg b2 (cpOf s.ctl l) l m snd
+    simp only [↓reduceIte]
+    refine ⟨⟨_, _, _, _, _, _, _, rfl⟩, recvApp_pos ha, trivial, ?_⟩
+    rw [hfin, mb, me]
+    by_cases hF : t = .F
+    · subst hF
+      rw [convStep_F cfg hc] at hcv
+      simp only [Prod.mk.injEq, and_true] at hcv
+      subst hcv
+      refine ⟨by simp, by simp, by simp, ?_, by simp⟩
+      intro _
+      exact ⟨fun hne => ato hne, fun a d hd => aother a d (by simpa [bankDenom] using hd), ae⟩
+    · obtain ⟨et, het, hU, hX, hA, ce, _, _, _, cother, cto, cto0⟩ := convStep_hex_ok cfg hc _ _ _ _ _ _ _ hF hcv
+      refine ⟨hU, hX, hA, fun h => absurd h hF, fun _ => ⟨et, het, ?_, ?_, ?_, ?_⟩⟩
+      · rw [ce, ae]; simp [get_add]
+      · intro k hk; rw [ce, ae]; simp [get_add, Ne.symm hk]
+      · intro a d hd hdA; rw [cother a d hd hdA, aother a d hd]
+      · intro hn1 hn2 hn3 d
+        by_cases hd : d = bankDenom t l
+        · subst hd; rw [cto0 hn1 hn2, ato hn3]; simp
+        · rw [cto hn1 hn2 d hd, aother to d hd]
+
+/-- a non-native token sent to a bech32 (or malformed) receiver is always answered with an error acknowledgement -/
+theorem recvWith_nonhex_error (cfg : Cfg) (hc : RecvOk cfg) (s : State) (l : Ch) (t : Tok) (k : RKind) (to : Addr) (amt : Nat)
+    (m : Memo) (snd : Nat) (ht : t ≠ .F) (hk : k ≠ .hex) :
+    (stepWith cfg s (.recv l t k to amt m snd)).2.isRecv false ∧ (stepWith cfg s (.recv l t k to amt m snd)).1 = s := by
+  simp only [stepWith]
+  cases hr : (recvBal cfg s.ctl.vmeta s.bal (cpOf s.ctl l) l t k to amt m snd).2 with
+  | false =>
+    simp only [Bool.false_eq_true, ↓reduceIte, and_true]
+    exact ⟨_, _, _, _, _, _, _, rfl⟩
+  | true =>
+    exfalso
+    obtain ⟨_, b1, b2, _, hcv, _, _⟩ := recvBal_ok cfg hc _ _ _ _ _ _ _ _ _ _ hr
+    have := convStep_nonhex cfg hc s.ctl.vmeta b1 l t k to amt ht hk
+    rw [hcv] at this
+    cases this
+
+/-- every receive leaves the packet bookkeeping (commitments, relation records, sequences, logs) untouched -/
+theorem recvWith_ctl (cfg : Cfg) (s : State) (l : Ch) (t : Tok) (k : RKind) (to : Addr) (amt : Nat) (m : Memo) (snd : Nat) :
+    (stepWith cfg s (.recv l t k to amt m snd)).1.ctl = s.ctl := by
+  simp only [stepWith]
+  split <;> rfl
+
+theorem recvWith_memo (cfg : Cfg) (hc : RecvOk cfg) (s : State) (l : Ch) (t : Tok) (k : RKind) (to : Addr) (amt : Nat)
+    (snd : Nat) :
+    ((stepWith cfg s (.recv l t k to amt .callrev snd)).2.isRecv false ∧ (stepWith cfg s (.recv l t k to amt .callrev snd)).1 = s) ∧
+    (((stepWith cfg s (.recv l t k to amt .callok snd)).2.isRecv true ∧
+        (stepWith cfg s (.recv l t k to amt .callok snd)).1.bal.marker = s.bal.marker + 1 ∧
+        (stepWith cfg s (.recv l t k to amt .callok snd)).1.bal.caller =
+          some (cfg.memoChan.pick (cpOf s.ctl l) l, if cfg.memoSender then snd else 0)) ∨
+      ((stepWith cfg s (.recv l t k to amt .callok snd)).2.isRecv false ∧ (stepWith cfg s (.recv l t k to amt .callok snd)).1 = s)) := by
+  constructor
+  · simp only [stepWith]
+    cases hr : (recvBal cfg s.ctl.vmeta s.bal (cpOf s.ctl l) l t k to amt .callrev snd).2 with
+    | false =>
+      simp only [Bool.false_eq_true, ↓reduceIte, and_true]
+      exact ⟨_, _, _, _, _, _, _, rfl⟩
+    | true =>
+      obtain ⟨_, _, _, _, _, hm, _⟩ := recvBal_ok cfg hc _ _ _ _ _ _ _ _ _ _ hr
+      exact absurd rfl hm
+  · simp only [stepWith]
+    cases hr : (recvBal cfg s.ctl.vmeta s.bal (cpOf s.ctl l) l t k to amt .callok snd).2 with
+    | false =>
+      right
+      simp only [Bool.false_eq_true, ↓reduceIte, and_true]
+      exact ⟨_, _, _, _, _, _, _, rfl⟩
+    | true =>
+      left
+      obtain ⟨_, b1, b2, ha, hcv, _, hfin⟩ := recvBal_ok cfg hc _ _ _ _ _ _ _ _ _ _ hr
+      simp only [↓reduceIte]
+      refine ⟨⟨_, _, _, _, _, _, _, rfl⟩, ?_, ?_⟩
+      · rw [hfin]
+        simp only [memoStep]
+        obtain ⟨_, am, _, _, _⟩ := recvApp_eff ha
+        have : b2.marker = b1.marker := by
+          by_cases hF : t = .F
+          · subst hF; rw [convStep_F cfg hc] at hcv; simp only [Prod.mk.injEq, and_true] at hcv; rw [hcv]
+          · cases k with
+            | hex =>
+              obtain ⟨_, _, _, _, _, _, hmk, _⟩ := convStep_hex_ok cfg hc _ _ _ _ _ _ _ hF hcv
+              exact hmk
+            | bech =>
+              have := convStep_nonhex cfg hc s.ctl.vmeta b1 l t .bech to amt hF (by simp)
+              rw [hcv] at this; cases this
+            | bad =>
+              have := convStep_nonhex cfg hc s.ctl.vmeta b1 l t .bad to amt hF (by simp)
+              rw [hcv] at this; cases this
+        rw [this, am]
+      · rw [hfin]; simp [memoStep]
+
+/-! ## life cycle of records and EVM-originated transfers -/
+
+/-- second invariant (needs, on top of `Sound`, that every settlement is wired as `Removes` says) -/
+structure Life (c : Ctl) : Prop where
+  /-- every relation record belongs to an in-flight EVM-originated transfer of a token other than FX -/
+  relC : ∀ k ∈ c.rel, ∃ x ∈ c.commits, x.1 = k ∧ x.2.evm = true ∧ x.2.tok ≠ .F
+  /-- every EVM-originated transfer is in flight, or was acknowledged successfully, or was refunded -/
+  eLife : ∀ e ∈ c.evmSent, (∃ x ∈ c.commits, x.1 = e.key) ∨ e.key ∈ c.ackedOk ∨ (∃ r ∈ c.refundLog, r.key = e.key)
+  /-- an EVM-originated commitment is logged, and its token is FX or the aliased token -/
+  cE : ∀ x ∈ c.commits, x.2.evm = true → (∃ e ∈ c.evmSent, e.key = x.1 ∧ e.tok = x.2.tok) ∧ (x.2.tok = .F ∨ x.2.tok = .A)
+  /-- a commitment that was not started from the EVM carries a coin of this chain -/
+  cC : ∀ x ∈ c.commits, x.2.evm = false → returning x.2.tok = true
+  /-- one commitment per (channel, sequence) -/
+  cU : ∀ x ∈ c.commits, ∀ y ∈ c.commits, x.1 = y.1 → x = y
+
+theorem life_init : Life init.ctl := by
+  constructor <;> simp [init]
+
+theorem sendBal_evm_tok {b b' : Bal} {l : Ch} {a : Addr} {t : Tok} {amt : Nat} (h : sendBal b l a t amt true = some b') :
+    t = .F ∨ t = .A := by
+  cases t <;> simp [sendBal] at h ⊢
+  all_goals (split at h <;> simp at h)
+
+theorem sendBal_cosmos_tok {b b' : Bal} {l : Ch} {a : Addr} {t : Tok} {amt : Nat} (h : sendBal b l a t amt false = some b') :
+    returning t = true := by
+  cases t <;> simp [sendBal, returning] at h ⊢
+
+theorem life_send (cfg : Cfg) (s : State) (l : Ch) (sender : Addr) (t : Tok) (amt : Nat) (evm : Bool) (hi : Inv s.ctl)
+    (h : Life s.ctl) : Life (doSend cfg s l sender t amt evm).1.ctl := by
+  unfold doSend
+  cases hb : sendBal s.bal l sender t amt evm with
+  | none => exact h
+  | some b =>
+    simp only
+    have freshE : ∀ e ∈ s.ctl.evmSent, e.key ≠ (l, nextSeq s.ctl l) := by
+      intro e he hk
+      have := hi.fE e he
+      simp only [SentRec.key, Prod.mk.injEq] at hk
+      rw [hk.1, hk.2] at this; exact absurd this (Nat.not_succ_le_self _)
+    constructor
+    · intro k hk
+      simp only [sendCtl] at hk ⊢
+      have old : k ∈ s.ctl.rel → ∃ x ∈ ((l, nextSeq s.ctl l), (⟨sender, t, amt, evm, cpOf s.ctl l⟩ : Pkt)) :: s.ctl.commits,
+          x.1 = k ∧ x.2.evm = true ∧ x.2.tok ≠ .F := by
+        intro hk
+        obtain ⟨x, hx, hx2⟩ := h.relC k hk
+        exact ⟨x, List.mem_cons_of_mem _ hx, hx2⟩
+      cases hkey : sendKey cfg l (nextSeq s.ctl l) t evm with
+      | none => rw [hkey] at hk; exact old hk
+      | some k' =>
+        rw [hkey] at hk
+        simp only [List.mem_cons] at hk
+        rcases hk with hk | hk
+        · refine ⟨_, List.mem_cons_self, ?_⟩
+          unfold sendKey at hkey
+          split at hkey
+          · rename_i hc
+            simp only [Bool.and_eq_true, bne_iff_ne, ne_eq] at hc
+            simp only [Option.some.injEq] at hkey
+            exact ⟨by rw [hk, ← hkey], hc.1.1.1, hc.1.1.2⟩
+          · cases hkey
+        · exact old hk
+    · intro e he
+      simp only [sendCtl] at he ⊢
+      have old : e ∈ s.ctl.evmSent →
+          ((∃ x ∈ ((l, nextSeq s.ctl l), (⟨sender, t, amt, evm, cpOf s.ctl l⟩ : Pkt)) :: s.ctl.commits, x.1 = e.key) ∨
+            e.key ∈ s.ctl.ackedOk ∨ (∃ r ∈ s.ctl.refundLog, r.key = e.key)) := fun he => by
+        rcases h.eLife e he with ⟨x, hx, hxk⟩ | hr | hr
+        · exact Or.inl ⟨x, List.mem_cons_of_mem _ hx, hxk⟩
+        · exact Or.inr (Or.inl hr)
+        · exact Or.inr (Or.inr hr)
+      cases evm with
+      | false => simp only [Bool.false_eq_true, ↓reduceIte] at he; exact old he
+      | true =>
+        simp only [↓reduceIte, List.mem_cons] at he
+        rcases he with he | he
+        · subst he; exact Or.inl ⟨_, List.mem_cons_self, rfl⟩
+        · exact old he
+    · intro x hx hev
+      simp only [sendCtl, List.mem_cons] at hx ⊢
+      rcases hx with hx | hx
+      · subst hx
+        simp only at hev
+        subst hev
+        refine ⟨⟨_, by simp only [↓reduceIte]; exact List.mem_cons_self, rfl, rfl⟩, sendBal_evm_tok hb⟩
+      · obtain ⟨⟨e, he, hek⟩, ht⟩ := h.cE x hx hev
+        refine ⟨⟨e, ?_, hek⟩, ht⟩
+        split
+        · exact List.mem_cons_of_mem _ he
+        · exact he
+    · intro x hx hev
+      simp only [sendCtl, List.mem_cons] at hx
+      rcases hx with hx | hx
+      · subst hx
+        simp only at hev
+        subst hev
+        exact sendBal_cosmos_tok hb
+      · exact h.cC x hx hev
+    · have freshC : ∀ x ∈ s.ctl.commits, x.1 ≠ (l, nextSeq s.ctl l) := by
+        intro x hx he
+        have := hi.fC x hx
+        rw [he] at this; exact absurd this (Nat.not_succ_le_self _)
+      intro x hx y hy hxy
+      simp only [sendCtl, List.mem_cons] at hx hy
+      rcases hx with hx | hx <;> rcases hy with hy | hy
+      · rw [hx, hy]
+      · subst hx; exact absurd hxy.symm (freshC y hy)
+      · subst hy; exact absurd hxy (freshC x hx)
+      · exact h.cU x hx y hy hxy
+
+theorem life_settleState (cfg : Cfg) (hR : Removes cfg) (s s' : State) (l : Ch) (seq : Seq) (p : Pkt) (mode : Mode)
+    (h : Life s.ctl) (hr : settleState cfg s l seq p mode = some s') : Life s'.ctl := by
+  have hrel := settleState_rel cfg hR s s' l seq p mode hr
+  have hcom := settleState_commits cfg s s' l seq p mode hr
+  have hev : s'.ctl.evmSent = s.ctl.evmSent := by
+    cases mode with
+    | ackOk => simp only [settleState, Option.some.injEq] at hr; subst hr; rfl
+    | ackErr =>
+      simp only [settleState, hR.ackErrRefunds, refundState] at hr
+      split at hr
+      · cases hr
+      · simp only [↓reduceIte] at hr; split at hr
+        · cases hr
+        · cases hr; rfl
+    | timeout =>
+      simp only [settleState, hR.timeoutRefunds, refundState] at hr
+      split at hr
+      · cases hr
+      · simp only [↓reduceIte] at hr; split at hr
+        · cases hr
+        · cases hr; rfl
+  -- the settled key is logged as acknowledged or refunded; both logs only grow
+  have hlog : ((l, seq) ∈ s'.ctl.ackedOk ∨ ∃ r ∈ s'.ctl.refundLog, r.key = (l, seq)) ∧
+      (∀ k ∈ s.ctl.ackedOk, k ∈ s'.ctl.ackedOk) ∧ (∀ r ∈ s.ctl.refundLog, r ∈ s'.ctl.refundLog) := by
+    cases mode with
+    | ackOk =>
+      simp only [settleState, Option.some.injEq] at hr; subst hr
+      exact ⟨Or.inl List.mem_cons_self, fun k hk => List.mem_cons_of_mem _ hk, fun r hr => hr⟩
+    | ackErr =>
+      simp only [settleState, hR.ackErrRefunds, refundState] at hr
+      split at hr
+      · cases hr
+      · simp only [↓reduceIte] at hr; split at hr
+        · cases hr
+        · cases hr
+          exact ⟨Or.inr ⟨_, List.mem_cons_self, rfl⟩, fun k hk => hk, fun r hr => List.mem_cons_of_mem _ hr⟩
+    | timeout =>
+      simp only [settleState, hR.timeoutRefunds, refundState] at hr
+      split at hr
+      · cases hr
+      · simp only [↓reduceIte] at hr; split at hr
+        · cases hr
+        · cases hr
+          exact ⟨Or.inr ⟨_, List.mem_cons_self, rfl⟩, fun k hk => hk, fun r hr => List.mem_cons_of_mem _ hr⟩
+  constructor
+  · intro k hk
+    rw [hrel] at hk
+    obtain ⟨hk1, hk2⟩ := mem_dropRel.1 hk
+    obtain ⟨x, hx, hxk, hx2⟩ := h.relC k hk1
+    exact ⟨x, by rw [hcom]; exact mem_dropCommit.2 ⟨hx, by rw [hxk]; exact hk2⟩, hxk, hx2⟩
+  · intro e he
+    rw [hev] at he
+    by_cases hk : e.key = (l, seq)
+    · rcases hlog.1 with ha | hrf
+      · exact Or.inr (Or.inl (hk ▸ ha))
+      · exact Or.inr (Or.inr (by rw [hk]; exact hrf))
+    · rcases h.eLife e he with ⟨x, hx, hxk⟩ | ha | ⟨r, hr', hrk⟩
+      · exact Or.inl ⟨x, by rw [hcom]; exact mem_dropCommit.2 ⟨hx, by rw [hxk]; exact hk⟩, hxk⟩
+      · exact Or.inr (Or.inl (hlog.2.1 _ ha))
+      · exact Or.inr (Or.inr ⟨r, hlog.2.2 _ hr', hrk⟩)
+  · intro x hx hxe
+    rw [hcom] at hx
+    rw [hev]
+    exact h.cE x (mem_dropCommit.1 hx).1 hxe
+  · intro x hx hxe
+    rw [hcom] at hx
+    exact h.cC x (mem_dropCommit.1 hx).1 hxe
+  · intro x hx y hy hxy
+    rw [hcom] at hx hy
+    exact h.cU x (mem_dropCommit.1 hx).1 y (mem_dropCommit.1 hy).1 hxy
+
+theorem life_step (cfg : Cfg) (hR : Removes cfg) (s : State) (op : Op) (hi : Inv s.ctl) (h : Life s.ctl) :
+    Life (stepWith cfg s op).1.ctl := by
+  cases op with
+  | reset => exact life_init
+  | chan l r => exact ⟨h.relC, h.eLife, h.cE, h.cC, h.cU⟩
+  | vmeta l => exact ⟨h.relC, h.eLife, h.cE, h.cC, h.cU⟩
+  | migrate => exact ⟨h.relC, h.eLife, h.cE, h.cC, h.cU⟩
+  | seqset l n =>
+    simp only [stepWith]
+    split
+    · exact ⟨h.relC, h.eLife, h.cE, h.cC, h.cU⟩
+    · exact h
+  | fund a t l amt =>
+    simp only [stepWith]
+    split <;> exact h
+  | recv l t k to amt m snd =>
+    simp only [stepWith]
+    split <;> exact h
+  | send l sender t amt => exact life_send cfg s l sender t amt true hi h
+  | csend l sender t amt => exact life_send cfg s l sender t amt false hi h
+  | settle l seq mode =>
+    simp only [stepWith, settle]
+    cases hl : lookup (l, seq) s.ctl.commits with
+    | none => exact h
+    | some p =>
+      simp only
+      cases hst : settleState cfg s l seq p mode with
+      | none => exact h
+      | some s' => exact life_settleState cfg hR s s' l seq p mode h hst
+  | bad => exact h
+
+theorem run_life (cfg : Cfg) (hs : Sound cfg) (hR : Removes cfg) (ops : List Op) (s : State) (hi : Inv s.ctl) (h : Life s.ctl) :
+    Inv (runWith cfg s ops).ctl ∧ Life (runWith cfg s ops).ctl := by
+  induction ops generalizing s with
+  | nil => exact ⟨hi, h⟩
+  | cons op ops ih => exact ih _ (step_inv cfg hs s op hi) (life_step cfg hR s op hi h)
+
+/-- a transfer that was NOT started from the EVM is refunded in the form it was sent in: the coin goes back to the
+sender's bank balance, no ERC-20 balance changes, whatever else is in flight -/
+theorem settle_refund_cosmos (cfg : Cfg) (hs : Sound cfg) (hE : cfg.ackErrRefunds = true) (hT : cfg.timeoutRefunds = true)
+    (hG : cfg.refundGuarded = true) (s : State) (l : Ch) (seq : Seq) (p : Pkt) (mode : Mode) (hm : mode ≠ .ackOk)
+    (hl : Life s.ctl) (hlk : lookup (l, seq) s.ctl.commits = some p) (hev : p.evm = false ∨ p.tok = .F) :
+    (stepWith cfg s (.settle l seq mode)).2.isDone →
+      (stepWith cfg s (.settle l seq mode)).1.bal.erc = s.bal.erc ∧
+      (p.sender ≠ escrow l → sget (stepWith cfg s (.settle l seq mode)).1.bal.bank (p.sender, bankDenom p.tok l) =
+        sget s.bal.bank (p.sender, bankDenom p.tok l) + p.amt) ∧
+      (∀ a d, d ≠ bankDenom p.tok l → sget (stepWith cfg s (.settle l seq mode)).1.bal.bank (a, d) = sget s.bal.bank (a, d)) ∧
+      (stepWith cfg s (.settle l seq mode)).1.ctl.refundLog = ⟨l, seq, p.sender, p.tok, p.amt, false⟩ :: s.ctl.refundLog := by
+  have hret : returning p.tok = true := by
+    rcases hev with hev | hev
+    · exact hl.cC _ (lookup_mem hlk) hev
+    · rw [hev]; rfl
+  -- no record under this key: records belong to EVM-started commitments, and the key has one commitment only
+  have hnot : (l, seq) ∉ s.ctl.rel := by
+    intro hin
+    obtain ⟨x, hx, hxk, hxe, hxt⟩ := hl.relC _ hin
+    have := hl.cU x hx _ (lookup_mem hlk) hxk
+    rw [this] at hxe hxt
+    simp only at hxe hxt
+    rcases hev with hev | hev
+    · rw [hev] at hxe; cases hxe
+    · exact hxt hev
+  have hfound : refundFound cfg s.ctl (l, seq) p = none := by
+    rw [refundFound_src cfg hs.refundSees hs.refundChan hs.refundSeq hs.deleteReports]
+    simp [hnot]
+  have hform : refundForm cfg s.ctl (l, seq) p = false := by simp [refundForm, hfound, hG]
+  have hnib : (bankDenom p.tok l).isIbc = false := by
+    cases ht : p.tok <;> simp_all [returning, bankDenom, Denom.isIbc]
+  simp only [stepWith, settle, hlk]
+  have hmode : settleState cfg s l seq p mode = refundState cfg s l seq p true := by
+    cases mode with
+    | ackOk => exact absurd rfl hm
+    | ackErr => simp [settleState, hE]
+    | timeout => simp [settleState, hT]
+  rw [hmode]
+  simp only [refundState, refundApp, hret, ↓reduceIte]
+  by_cases hlt : sget s.bal.bank (escrow l, bankDenom p.tok l) < p.amt
+  · simp only [hlt, ↓reduceIte]
+    intro hd; obtain ⟨_, _, _, _, _, _, _, hd⟩ := hd; cases hd
+  · simp only [hlt, ↓reduceIte, refundHook, toBaseCoin, hnib, Bool.not_false, hform, Bool.false_eq_true]
+    intro _
+    refine ⟨rfl, ?_, ?_, ?_⟩
+    · intro hne
+      have e1 : ¬ (escrow l = p.sender) := fun e => hne e.symm
+      simp [Bal.move, get_add, get_sub, e1]
+    · intro a d hd
+      simp [Bal.move, get_add, get_sub, Ne.symm hd]
+    · simp [refundCtl, hform]
+
+/-! ## text: separators -/
 
 theorem prefix_inj (p p' c c' : List Char) (hp : '/' ∉ p) (hp' : '/' ∉ p')
     (h : p ++ '/' :: c = p' ++ '/' :: c') : p = p' ∧ c = c' := by
@@ -656,4 +1384,100 @@ theorem prefix_inj (p p' c c' : List Char) (hp : '/' ∉ p) (hp' : '/' ∉ p')
         (by intro hm; exact hp' (List.mem_cons_of_mem _ hm)) h.2
       exact ⟨by rw [h.1, this.1], this.2⟩
 
+/-- a text split at its LAST separator is split uniquely -/
+theorem suffix_inj (a a' t t' : List Char) (ht : '/' ∉ t) (ht' : '/' ∉ t')
+    (h : a ++ '/' :: t = a' ++ '/' :: t') : a = a' ∧ t = t' := by
+  have hr : t.reverse ++ '/' :: a.reverse = t'.reverse ++ '/' :: a'.reverse := by
+    have := congrArg List.reverse h
+    simpa using this
+  have := prefix_inj t.reverse t'.reverse a.reverse a'.reverse (by simpa using ht) (by simpa using ht') hr
+  exact ⟨List.reverse_inj.1 this.2, List.reverse_inj.1 this.1⟩
+
+theorem slash_not_in_digits (n : Nat) : '/' ∉ Nat.toDigits 10 n := by
+  intro h
+  have := Nat.isDigit_of_mem_toDigits (by decide) (by decide) h
+  exact absurd this (by decide)
+
+theorem toDigits_inj {m n : Nat} (h : Nat.toDigits 10 m = Nat.toDigits 10 n) : m = n := by
+  have h₁ := Nat.ofDigitChars_ten_toDigits (n := m)
+  have h₂ := Nat.ofDigitChars_ten_toDigits (n := n)
+  rw [h] at h₁
+  exact h₁.symm.trans h₂
+
+/-! ## a transfer started from the EVM that fails gives back exactly what it took -/
+
+theorem runWith_append (cfg : Cfg) (s : State) (a b : List Op) :
+    runWith cfg s (a ++ b) = runWith cfg (runWith cfg s a) b := by
+  simp [runWith, List.foldl_append]
+
+theorem send_refund_roundtrip (cfg : Cfg) (hs : Sound cfg) (hE : cfg.ackErrRefunds = true) (hT : cfg.timeoutRefunds = true)
+    (hTo : cfg.refundToSender = true) (s : State) (h : Inv s.ctl) (l : Ch) (a : Addr) (amt : Nat) (mode : Mode)
+    (hm : mode ≠ .ackOk) (hmeta : cfg.aliasFirst = true ∨ l ∉ s.ctl.vmeta)
+    (hok : (stepWith cfg s (.send l a .A amt)).2 ≠ .fail) :
+    (stepWith cfg (stepWith cfg s (.send l a .A amt)).1 (.settle l (nextSeq s.ctl l) mode)).2.isDone ∧
+    (∀ k, sget (stepWith cfg (stepWith cfg s (.send l a .A amt)).1 (.settle l (nextSeq s.ctl l) mode)).1.bal.erc k =
+      sget s.bal.erc k) ∧
+    (a ≠ transferMod → a ≠ erc20Mod → ∀ d,
+      sget (stepWith cfg (stepWith cfg s (.send l a .A amt)).1 (.settle l (nextSeq s.ctl l) mode)).1.bal.bank (a, d) =
+        sget s.bal.bank (a, d)) ∧
+    (stepWith cfg (stepWith cfg s (.send l a .A amt)).1 (.settle l (nextSeq s.ctl l) mode)).1.ctl.rel = s.ctl.rel := by
+  have hinv1 := step_inv cfg hs s (.send l a .A amt) h
+  simp only [stepWith, doSend] at hok hinv1 ⊢
+  cases hb : sendBal s.bal l a .A amt true with
+  | none => simp [hb] at hok
+  | some b =>
+    simp only [hb] at hinv1 ⊢
+    -- what the send did
+    have hguard : amt ≤ sget s.bal.erc (a, ETok.base) ∧
+        b = { s.bal with erc := ssub s.bal.erc (a, ETok.base) amt,
+                         bank := ssub (ssub s.bal.bank (erc20Mod, Denom.base) amt) (transferMod, Denom.vA l) amt } := by
+      simp only [sendBal] at hb
+      split at hb
+      · cases hb
+      · split at hb
+        · cases hb
+        · rename_i hc
+          simp only [not_or, Nat.not_lt] at hc
+          simp only [Option.some.injEq] at hb
+          exact ⟨hc.1, hb.symm⟩
+    have hkey : sendKey cfg l (nextSeq s.ctl l) .A true = some (l, nextSeq s.ctl l) := by
+      simp [sendKey, hs.sendSetsRel, hs.sendKeyOwn]
+    let e : SentRec := ⟨l, nextSeq s.ctl l, a, .A, amt⟩
+    let s1 : State := { bal := b, ctl := sendCtl s.ctl l ⟨a, .A, amt, true, cpOf s.ctl l⟩ (sendKey cfg l (nextSeq s.ctl l) .A true) }
+    have he : e ∈ s1.ctl.evmSent := by simp [s1, e, sendCtl]
+    have hc : ∃ x ∈ s1.ctl.commits, x.1 = e.key := ⟨_, by simp only [s1, sendCtl]; exact List.mem_cons_self, rfl⟩
+    have hvm : cfg.aliasFirst = true ∨ e.ch ∉ s1.ctl.vmeta := by simpa [s1, e, sendCtl] using hmeta
+    obtain ⟨c1, c2, c3, c4, _, c6⟩ := settle_refund_credits cfg hs hE hT hTo s1 e mode hm hinv1 he rfl hc hvm
+    simp only [stepWith] at c1 c2 c3 c4 c6
+    refine ⟨c1, ?_, ?_, ?_⟩
+    · intro k
+      by_cases hk : k = (a, ETok.base)
+      · subst hk
+        have := c2
+        simp only [e, s1] at this
+        rw [this, hguard.2]
+        simp only [get_sub, ↓reduceIte]
+        omega
+      · have := c3 k hk
+        simp only [e, s1] at this
+        rw [this, hguard.2]
+        simp [get_sub, Ne.symm hk]
+    · intro hn1 hn2 d
+      have := c4 hn1 hn2 d
+      simp only [e, s1] at this
+      rw [this, hguard.2]
+      have e1 : ¬ (transferMod = a) := fun x => hn1 x.symm
+      have e2 : ¬ (erc20Mod = a) := fun x => hn2 x.symm
+      simp [get_sub, e1, e2]
+    · have c6' : (settle cfg s1 l (nextSeq s.ctl l) mode).1.ctl.rel = dropRel s1.ctl.rel (l, nextSeq s.ctl l) := c6
+      have hrel1 : s1.ctl.rel = (l, nextSeq s.ctl l) :: s.ctl.rel := by simp [s1, sendCtl, hkey]
+      show (settle cfg s1 l (nextSeq s.ctl l) mode).1.ctl.rel = s.ctl.rel
+      rw [c6', hrel1]
+      have hfresh : (l, nextSeq s.ctl l) ∉ s.ctl.rel := by
+        intro hin
+        have := h.fK _ hin
+        exact absurd this (Nat.not_succ_le_self _)
+      have : dropRel ((l, nextSeq s.ctl l) :: s.ctl.rel) (l, nextSeq s.ctl l) = dropRel s.ctl.rel (l, nextSeq s.ctl l) := by
+        simp [dropRel]
+      rw [this, dropRel_of_not_mem _ _ hfresh]
 end FxVerif.Proofs.C19
